@@ -10561,6 +10561,1824 @@ def gen_realign_worker():
 GENERATORS["RealignWorker"] = gen_realign_worker
 
 
+# ---------------------------------------------------------------------------------------------------------
+# sort.process_alignment as a whole function and the first pass of sort.sort up to `list.sort`, statement by statement (C08, C09)
+
+_SP_PRELUDE = r"""/-! ## the Python primitives the translation refers to -/
+
+/-- how an evaluation ends when it does not produce a value -/
+inductive PyExc where
+  | keyError | indexError | valueError | assertionError
+  | outOfFuel      -- not a Python exception: the fuel handed to a `while True:` loop ran out
+deriving DecidableEq, Repr
+
+/-- `d[k]` (absent: KeyError), `l[i]` (out of range: IndexError), `int(s)` (not a number: ValueError) -/
+def orKey {α : Type} : Option α → Except PyExc α
+  | some a => .ok a
+  | none => .error .keyError
+def orIndex {α : Type} : Option α → Except PyExc α
+  | some a => .ok a
+  | none => .error .indexError
+def orValue {α : Type} : Option α → Except PyExc α
+  | some a => .ok a
+  | none => .error .valueError
+
+/-- `l[i]` for an integer that may be negative (counted from the end) -/
+def pyIdx {α : Type} (l : List α) (i : Int) : Option α :=
+  if i < 0 then (if i.natAbs ≤ l.length then l[l.length - i.natAbs]? else none) else l[i.toNat]?
+
+/-- `re.split(p, s)` for a pattern that is an alternation of single characters, every one of them in a capturing group: `sep c` =
+    the character is one of them; the separator itself becomes an element of the result (the `None`s of the groups that did not
+    take part are not represented: the translator insists on `filter(None, …)` around a pattern with groups). -/
+def reSplitAux (sep keep : Char → Bool) : Str → Str → List Str
+  | [], cur => [cur.reverse]
+  | c :: cs, cur =>
+    if sep c then cur.reverse :: ((if keep c then [[c]] else []) ++ reSplitAux sep keep cs [])
+    else reSplitAux sep keep cs (c :: cur)
+def reSplit (sep keep : Char → Bool) (s : Str) : List Str := reSplitAux sep keep s []
+
+/-- `filter(None, l)` on strings: the empty ones go -/
+def filterNone (l : List Str) : List Str := l.filter (fun t => !t.isEmpty)
+
+/-- the GAF being read: `tell()` = `pos` (a record is identified by its ordinal); `readline()` gives the head of `rest` — the empty
+    string when nothing is left — and advances `pos` -/
+structure GafFile where
+  pos : Nat
+  rest : List Str
+
+/-- `while True:` with a body that says whether to go on (`false` = `break`) -/
+def whileTrue {σ : Type} (body : σ → Except PyExc (Bool × σ)) : Nat → σ → Except PyExc σ
+  | 0, _ => .error .outOfFuel
+  | fuel + 1, s =>
+    match body s with
+    | .error e => .error e
+    | .ok (false, s') => .ok s'
+    | .ok (true, s') => whileTrue body fuel s'
+
+/-- `l.sort(key=functools.cmp_to_key(cmp))`: a stable sort that only ever asks whether `K(y) < K(x)`, which `cmp_to_key` answers by
+    `cmp(y, x) < 0`: `x` stays in front of `y` unless that holds.  (A comparator that returns `None` makes `<` raise `TypeError`;
+    that outcome is not represented: `none` counts as "not less".) -/
+def pySortCmp {α : Type} (cmp : α → α → Option Int) (l : List α) : List α :=
+  l.mergeSort (fun x y => match cmp y x with
+    | some c => !(decide (c < 0))
+    | none => true)
+"""
+
+_SP_RESERVED = set(_IX_RESERVED) | {
+    "orKey", "orIndex", "orValue", "pyIdx", "pySortCmp", "PyExc", "Except", "processAlignment", "firstPass", "Aln", "NodeTags", "isDigits",
+    "decide", "ok", "error", "bind", "isOrientTok", "pathTokens",
+}
+
+# the four tags `sort` reads and the field of the model's `NodeTags` that stands for `[int(]nodes[n].tags[TAG][1][)]`
+_SP_TAGS = {"SN": ("sn", "String"), "BO": ("bo", "Int"), "NO": ("no", "Int"), "SR": ("sr", "Int")}
+# the fields of the model's `Aln` and their types; a namedtuple field corresponds to the field with the same lower-cased name
+_SP_ALN = [("offset", "Int"), ("bo", "Int"), ("no", "Int"), ("start", "Int"), ("inv", "Int"), ("sn", "String")]
+
+
+class _SpLit(str):
+    """the Lean text of a Python string constant (as a list of characters) that remembers the constant"""
+
+
+def _sp_lit(v):
+    s = _SpLit(_ix_chars(v))
+    s.py = v
+    return s
+
+
+def _sp_string(v):
+    if not all(32 <= ord(c) < 127 for c in v):
+        raise Untranslatable("non-ASCII / control character in a string constant")
+    return '"%s"' % v.replace("\\", "\\\\").replace('"', '\\"')
+
+
+def _sp_par(s):
+    return s if re.fullmatch(r"[\w.]+", s) or (s.startswith("(") and s.endswith(")")) else "(%s)" % s
+
+
+def _sp_ty(t):
+    """Lean text of a type: atoms are strings, ("Option", t), ("List", t), ("Tuple", (t1, …))"""
+    if isinstance(t, str):
+        return {"Nodes": "String → Option NodeTags", "NoneT": "Unit"}.get(t, t)
+    if t[0] in ("Option", "List"):
+        return "%s %s" % (t[0], _sp_par(_sp_ty(t[1])))
+    if t[0] == "Tuple":
+        return "(" + " × ".join(_sp_ty(x) for x in t[1]) + ")"
+    raise Untranslatable("type %r" % (t,))
+
+
+def _sp_proj(x, i, n):
+    return x if n == 1 else x + ".2" * i + (".1" if i < n - 1 else "")
+
+
+class _SpOwner:
+    def __init__(self, mod):
+        self.mod = mod
+        self.defs = []
+        self.known = {}       # Python function -> (Lean name, [parameter types], result type)
+        self.records = {}     # Python name bound to a namedtuple -> [field names]
+        self.cmps = {}        # Python comparator -> Lean name
+        self.aux_memo = {}
+        self.sorted_var = None
+
+
+class _SpFn:
+    def __init__(self, owner, pyfn, lean):
+        self.owner, self.pyfn, self.lean = owner, pyfn, lean
+        self.nloop = 0
+
+    @staticmethod
+    def lean_name(n):
+        if not re.fullmatch(r"[A-Za-z_][A-Za-z0-9_]*", n) or re.fullmatch(r"v\d+", n) or n.endswith("_") or re.fullmatch(r"\w+_(for|while)\d+", n):
+            raise Untranslatable("variable name %s" % n)
+        return n + "_" if n in _SP_RESERVED else n
+
+
+class _SpCtx:
+    """state of the translation of one definition body (the result type is always `Except PyExc …`)"""
+
+    def __init__(self, fn, env, tmp=None):
+        self.fn = fn
+        self.env = list(env)          # [(py, lean, type)]; the first `outer_n` entries belong to the enclosing definition
+        self.outer_n = len(self.env)
+        self.binds = []               # pending [(var, text)] of the statement being translated, in evaluation order
+        self.used = set()             # Lean names of the enclosing definition this body reads (shared by the forks)
+        self.flags = {"fuel": False}  # shared by the forks
+        self.tmpc = tmp if tmp is not None else [0]
+
+    def fork(self):
+        c = _SpCtx(self.fn, self.env, self.tmpc)
+        c.outer_n = self.outer_n
+        c.used = self.used
+        c.flags = self.flags
+        return c
+
+    # ---- environment ------------------------------------------------------------------------------------
+    def has(self, n):
+        return any(py == n for py, _, _ in self.env)
+
+    def peek(self, n):
+        for py, lean, ty in reversed(self.env):
+            if py == n:
+                return lean, ty
+        raise Untranslatable("unknown variable %s" % n)
+
+    def lookup(self, n):
+        lean, ty = self.peek(n)
+        idx = max(i for i, (p, _, _) in enumerate(self.env) if p == n)
+        if idx < self.outer_n:
+            self.used.add(lean)
+        return lean, ty
+
+    def define(self, n, ty):
+        lean = _SpFn.lean_name(n)
+        self.env.append((n, lean, ty))
+        return lean
+
+    def let(self, pad, n, ty, text):
+        lean = self.define(n, ty)
+        return "%slet %s : %s := %s\n" % (pad, lean, _sp_ty(ty), text)
+
+    def tmp(self):
+        self.tmpc[0] += 1
+        return "v%d" % self.tmpc[0]
+
+    def bind(self, text, ty):
+        v = self.tmp()
+        self.binds.append((v, text))
+        return v, ty
+
+    def flush(self, pad):
+        out = "".join("%s%s.bind fun %s =>\n" % (pad, text, v) for v, text in self.binds)
+        self.binds = []
+        return out
+
+    # ---- types ------------------------------------------------------------------------------------------
+    def coerce(self, x, t, want, what):
+        if t == want:
+            return x
+        if isinstance(x, _SpLit) and want == "Str":
+            return str(x)
+        if isinstance(x, _SpLit) and want == "String":
+            return _sp_string(x.py)
+        if t == "Nat" and want == "Int":
+            return "(%s : Int)" % x
+        if isinstance(want, tuple) and want[0] == "Option":
+            if t == "NoneT":
+                return "none"
+            return "(some %s)" % self.coerce(x, t, want[1], what)
+        raise Untranslatable("%s: a %s where a %s is expected" % (what, _sp_ty(t) if t != "Lit" else "string constant", _sp_ty(want)))
+
+    def static(self, e, seen=()):
+        """the type of an expression from its syntax alone (what types a variable initialised with `None` / `[]`), or None"""
+        if isinstance(e, ast.Constant):
+            if e.value is None:
+                return "NoneT"
+            if isinstance(e.value, bool):
+                return "Bool"
+            if isinstance(e.value, int):
+                return "Int"
+            if isinstance(e.value, str):
+                return "Lit"
+            return None
+        if isinstance(e, ast.Name):
+            if self.has(e.id):
+                return self.peek(e.id)[1]
+            if e.id in seen:
+                return None
+            return self.static_var(e.id, seen + (e.id,))
+        if isinstance(e, ast.BinOp) and isinstance(e.op, (ast.Add, ast.Sub)):
+            return "Int" if self.static(e.left, seen) in ("Int", "Nat") and self.static(e.right, seen) in ("Int", "Nat") else None
+        if isinstance(e, ast.Call):
+            if isinstance(e.func, ast.Name) and e.func.id == "int" and len(e.args) == 1:
+                return "Int"
+            if isinstance(e.func, ast.Name) and e.func.id in self.fn.owner.records:
+                return "Aln"
+            if isinstance(e.func, ast.Attribute) and e.func.attr == "count":
+                return "Int"
+            return None
+        if isinstance(e, ast.Subscript):
+            tr = self.tag_shape(e)
+            if tr is not None:
+                return _SP_TAGS[tr[1]][1] if tr[1] in _SP_TAGS and _SP_TAGS[tr[1]][1] == "String" else None
+            t = self.static(e.value, seen)
+            if isinstance(t, tuple) and t[0] == "List" and not isinstance(e.slice, ast.Slice):
+                return t[1]
+        return None
+
+    def static_var(self, name, seen=()):
+        """the one type of everything but `None` the function assigns to `name` ("NoneT" if there is nothing else; None if unknown)"""
+        tys = []
+        for n in ast.walk(self.fn.pyfn):
+            t = False
+            if isinstance(n, ast.Assign):
+                for tg in n.targets:
+                    if isinstance(tg, ast.Name) and tg.id == name:
+                        t = self.static(n.value, seen)
+                    elif isinstance(tg, (ast.Tuple, ast.List)) and any(isinstance(x, ast.Name) and x.id == name for x in ast.walk(tg)):
+                        t = None
+            elif isinstance(n, ast.AugAssign) and isinstance(n.target, ast.Name) and n.target.id == name:
+                t = "Int"
+            elif isinstance(n, (ast.For, ast.comprehension)) and any(isinstance(x, ast.Name) and x.id == name for x in ast.walk(n.target)):
+                it = self.static(n.iter, seen)
+                t = it[1] if isinstance(n.target, ast.Name) and isinstance(it, tuple) and it[0] == "List" else None
+            elif isinstance(n, ast.NamedExpr) and isinstance(n.target, ast.Name) and n.target.id == name:
+                t = None
+            elif isinstance(n, (ast.Global, ast.Nonlocal)) and name in n.names:
+                t = None
+            elif isinstance(n, ast.Delete) and any(isinstance(x, ast.Name) and x.id == name for tg in n.targets for x in ast.walk(tg)):
+                t = None
+            elif isinstance(n, (ast.With, ast.ExceptHandler)):
+                bound = [n.name] if isinstance(n, ast.ExceptHandler) else [x.id for it in n.items if it.optional_vars is not None
+                                                                             for x in ast.walk(it.optional_vars) if isinstance(x, ast.Name)]
+                if name in bound:
+                    t = None
+            if t is False:
+                continue
+            if t is None:
+                return None
+            if t != "NoneT" and t not in tys:
+                tys.append(t)
+        if "Lit" in tys and len(tys) > 1:
+            tys.remove("Lit")
+        if tys == ["Lit"]:
+            tys = ["Str"]
+        if not tys:
+            return "NoneT"
+        return tys[0] if len(tys) == 1 else None
+
+    # ---- expressions ------------------------------------------------------------------------------------
+    @staticmethod
+    def tag_shape(e):
+        """X.tags["TAG"][1] -> (X, TAG) or None"""
+        if (isinstance(e, ast.Subscript) and isinstance(e.slice, ast.Constant) and e.slice.value == 1 and not isinstance(e.slice.value, bool)
+                and isinstance(e.value, ast.Subscript) and isinstance(e.value.slice, ast.Constant) and isinstance(e.value.slice.value, str)
+                and isinstance(e.value.value, ast.Attribute) and e.value.value.attr == "tags"):
+            return e.value.value.value, e.value.slice.value
+        return None
+
+    def tag_read(self, e, numeric):
+        tr = self.tag_shape(e)
+        if tr is None:
+            return None
+        x, tx = self.ex(tr[0])
+        if tx != "NodeTags" or tr[1] not in _SP_TAGS:
+            raise Untranslatable("tag read " + ast.unparse(e))
+        field, ty = _SP_TAGS[tr[1]]
+        if (ty == "Int") != numeric:
+            raise Untranslatable("%s: the model keeps %s as %s" % (ast.unparse(e), tr[1], "a number" if ty == "Int" else "text"))
+        return "%s.%s" % (x, field), ty
+
+    def strconst(self, e):
+        return isinstance(e, ast.Constant) and isinstance(e.value, str)
+
+    def ex(self, e):
+        """-> (lean text, type); the parts that may raise are appended to self.binds in evaluation order"""
+        if isinstance(e, ast.Name):
+            return self.lookup(e.id)
+        if isinstance(e, ast.Constant):
+            if e.value is None:
+                return "()", "NoneT"
+            if isinstance(e.value, bool):
+                return ("true" if e.value else "false"), "Bool"
+            if isinstance(e.value, int):
+                return "(%d : Int)" % e.value, "Int"
+            if isinstance(e.value, str):
+                return _sp_lit(e.value), "Lit"
+            raise Untranslatable("constant %r" % (e.value,))
+        if isinstance(e, ast.UnaryOp) and isinstance(e.op, ast.USub) and isinstance(e.operand, ast.Constant) and type(e.operand.value) is int:
+            return "(-%d : Int)" % e.operand.value, "Int"
+        if isinstance(e, ast.UnaryOp) and isinstance(e.op, ast.Not):
+            x, t = self.ex(e.operand)
+            if t == "Bool":
+                return "(!%s)" % x, "Bool"
+            if t == "Prop":
+                return "(¬ %s)" % x, "Prop"
+            if t == "Str" or (isinstance(t, tuple) and t[0] == "List"):
+                return "%s.isEmpty" % _sp_par(x), "Bool"
+            raise Untranslatable("not of a %s" % _sp_ty(t))
+        if isinstance(e, ast.BoolOp):
+            parts = []
+            for i, v in enumerate(e.values):
+                nb = len(self.binds)
+                parts.append(self.truth(v))
+                if i > 0 and len(self.binds) != nb:
+                    raise Untranslatable("an operand of and / or that may raise: " + ast.unparse(v)[:60])
+            if all(t == "Bool" for _, t in parts):
+                return "(" + (" && " if isinstance(e.op, ast.And) else " || ").join(x for x, _ in parts) + ")", "Bool"
+            ps = [x if t == "Prop" else "(%s = true)" % x for x, t in parts]
+            return "(" + (" ∧ " if isinstance(e.op, ast.And) else " ∨ ").join(ps) + ")", "Prop"
+        if isinstance(e, ast.Compare):
+            return self.compare(e)
+        if isinstance(e, ast.BinOp) and isinstance(e.op, (ast.Add, ast.Sub)):
+            (x, tx), (y, ty) = self.ex(e.left), self.ex(e.right)
+            if tx in ("Int", "Nat") and ty in ("Int", "Nat"):
+                return "(%s %s %s)" % (self.coerce(x, tx, "Int", "arithmetic"), "+" if isinstance(e.op, ast.Add) else "-", self.coerce(y, ty, "Int", "arithmetic")), "Int"
+            raise Untranslatable("arithmetic on %s, %s" % (_sp_ty(tx) if tx != "Lit" else "Lit", _sp_ty(ty) if ty != "Lit" else "Lit"))
+        if isinstance(e, ast.Tuple) and e.elts:
+            parts = [self.ex(v) for v in e.elts]
+            if any(t in ("Lit", "Prop", "ReSplit", "NoneT") for _, t in parts):
+                raise Untranslatable("tuple " + ast.unparse(e)[:60])
+            return "(" + ", ".join(x for x, _ in parts) + ")", ("Tuple", tuple(t for _, t in parts))
+        if isinstance(e, ast.Subscript):
+            if self.tag_shape(e) is not None:
+                return self.tag_read(e, numeric=False)
+            if isinstance(e.slice, ast.Slice):
+                raise Untranslatable("slice " + ast.unparse(e))
+            x, t = self.ex(e.value)
+            if isinstance(t, tuple) and t[0] == "List":
+                i = e.slice
+                if isinstance(i, ast.Constant) and type(i.value) is int and i.value >= 0:
+                    return self.bind("(orIndex (%s[%d]?))" % (x, i.value), t[1])
+                if isinstance(i, ast.UnaryOp) and isinstance(i.op, ast.USub) and isinstance(i.operand, ast.Constant) and type(i.operand.value) is int:
+                    return self.bind("(orIndex (pyIdx %s (-%d : Int)))" % (x, i.operand.value), t[1])
+                raise Untranslatable("index " + ast.unparse(e))
+            if t == "Nodes":
+                k, tk = self.ex(e.slice)
+                if tk == "Str":
+                    return self.bind("(orKey (%s (String.ofList %s)))" % (x, k), "NodeTags")
+                if tk == "String":
+                    return self.bind("(orKey (%s %s))" % (x, k), "NodeTags")
+            raise Untranslatable("subscript " + ast.unparse(e))
+        if isinstance(e, ast.Call):
+            return self.call(e)
+        raise Untranslatable("expression " + ast.unparse(e)[:80])
+
+    def truth(self, e):
+        x, t = self.ex(e)
+        if t in ("Bool", "Prop"):
+            return x, t
+        if t == "Str" or (isinstance(t, tuple) and t[0] == "List"):
+            return "(!%s.isEmpty)" % _sp_par(x), "Bool"
+        raise Untranslatable("truth value of a %s" % (_sp_ty(t) if t != "Lit" else "string constant"))
+
+    def compare(self, e):
+        if len(e.ops) > 1:
+            vals = [e.left] + list(e.comparators)
+            for v in vals[1:-1]:
+                if not isinstance(v, (ast.Name, ast.Constant)):
+                    raise Untranslatable("comparison chain " + ast.unparse(e))
+            parts = [self.compare(ast.Compare(left=vals[i], ops=[e.ops[i]], comparators=[vals[i + 1]])) for i in range(len(e.ops))]
+            return "(" + " ∧ ".join(x if t == "Prop" else "(%s = true)" % x for x, t in parts) + ")", "Prop"
+        op, l, r = e.ops[0], e.left, e.comparators[0]
+        if isinstance(op, (ast.Is, ast.IsNot)):
+            if not (isinstance(r, ast.Constant) and r.value is None):
+                raise Untranslatable("identity test " + ast.unparse(e))
+            x, t = self.ex(l)
+            if isinstance(t, tuple) and t[0] == "Option":
+                return "%s.%s" % (_sp_par(x), "isNone" if isinstance(op, ast.Is) else "isSome"), "Bool"
+            raise Untranslatable("`is None` of a %s" % (_sp_ty(t) if t != "Lit" else "string constant"))
+        if isinstance(op, (ast.In, ast.NotIn)):
+            if isinstance(r, (ast.List, ast.Tuple, ast.Set)) and r.elts and all(self.strconst(c) for c in r.elts):
+                x, t = self.ex(l)
+                if t == "Str":
+                    c = "([%s].contains %s)" % (", ".join(_ix_chars(c.value) for c in r.elts), x)
+                    return (c if isinstance(op, ast.In) else "(!%s)" % c), "Bool"
+            raise Untranslatable("membership test " + ast.unparse(e))
+        (x, tx), (y, ty) = self.ex(l), self.ex(r)
+        if isinstance(op, (ast.Eq, ast.NotEq)):
+            if tx == "Lit" and ty == "Lit":
+                raise Untranslatable("comparison of two constants")
+            base = lambda t: t[1] if isinstance(t, tuple) and t[0] == "Option" else t      # noqa: E731
+            if tx == "Lit":
+                tx, x = base(ty), self.coerce(x, "Lit", base(ty), "comparison")
+            if ty == "Lit":
+                ty, y = base(tx), self.coerce(y, "Lit", base(tx), "comparison")
+            if tx in ("Int", "Nat") and ty in ("Int", "Nat"):
+                w = "Int" if "Int" in (tx, ty) else "Nat"
+                return "(%s %s %s)" % (self.coerce(x, tx, w, "comparison"), "=" if isinstance(op, ast.Eq) else "≠", self.coerce(y, ty, w, "comparison")), "Prop"
+            if tx != ty:
+                if isinstance(tx, tuple) and tx[0] == "Option" and (ty == tx[1] or ty == "NoneT"):
+                    y, ty = self.coerce(y, ty, tx, "comparison"), tx
+                elif isinstance(ty, tuple) and ty[0] == "Option" and (tx == ty[1] or tx == "NoneT"):
+                    x, tx = self.coerce(x, tx, ty, "comparison"), ty
+                else:
+                    raise Untranslatable("comparison of a %s with a %s" % (_sp_ty(tx), _sp_ty(ty)))
+            if tx in ("Str", "String", "Bool") or (isinstance(tx, tuple) and tx[0] == "Option" and tx[1] in ("Str", "String", "Int", "Nat")):
+                return "(%s %s %s)" % (x, "==" if isinstance(op, ast.Eq) else "!=", y), "Bool"
+            raise Untranslatable("comparison " + ast.unparse(e))
+        sym = {ast.Lt: "<", ast.Gt: ">", ast.LtE: "≤", ast.GtE: "≥"}.get(type(op))
+        if sym and tx in ("Int", "Nat") and ty in ("Int", "Nat"):
+            w = "Int" if "Int" in (tx, ty) else "Nat"
+            return "(%s %s %s)" % (self.coerce(x, tx, w, "comparison"), sym, self.coerce(y, ty, w, "comparison")), "Prop"
+        raise Untranslatable("comparison " + ast.unparse(e))
+
+    def call(self, e):
+        f, a = e.func, e.args
+        fu = ast.unparse(f)
+        own = self.fn.owner
+        if isinstance(f, ast.Name) and f.id in own.records:
+            # a namedtuple of the fields of the model's `Aln`, by position and / or by keyword
+            fields = own.records[f.id]
+            given = {}
+            if len(a) > len(fields):
+                raise Untranslatable("arguments of " + f.id)
+            for name, v in list(zip(fields, a)) + [(kw.arg, kw.value) for kw in e.keywords]:
+                if name is None or name not in fields or name in given:
+                    raise Untranslatable("arguments of " + f.id)
+                want = dict(_SP_ALN)[name.lower()]
+                x, t = self.ex(v)
+                given[name] = self.coerce(x, t, want, "field %s of %s" % (name, f.id))
+            if set(given) != set(fields):
+                raise Untranslatable("arguments of " + f.id)
+            return "({ " + ", ".join("%s := %s" % (n.lower(), given[n]) for n in given) + " } : Aln)", "Aln"
+        if e.keywords:
+            raise Untranslatable("keyword arguments: " + ast.unparse(e)[:60])
+        if fu == "int" and len(a) == 1:
+            tr = self.tag_read(a[0], numeric=True)
+            if tr is not None:
+                return tr
+            x, t = self.ex(a[0])
+            if t == "Str":
+                return self.bind("(orValue (toInt %s))" % x, "Int")
+            raise Untranslatable("int() of " + ast.unparse(a[0])[:60])
+        if fu == "list" and len(a) == 1:
+            x, t = self.ex(a[0])
+            if isinstance(t, tuple) and t[0] == "List":
+                return x, t
+            raise Untranslatable("list() of " + ast.unparse(a[0])[:60])
+        if fu == "filter" and len(a) == 2 and isinstance(a[0], ast.Constant) and a[0].value is None:
+            x, t = self.ex(a[1])
+            if t in (("List", "Str"), "ReSplit"):
+                return "(filterNone %s)" % x, ("List", "Str")
+            raise Untranslatable("filter(None, …) of " + ast.unparse(a[1])[:60])
+        if fu == "re.split" and len(a) == 2 and self.strconst(a[0]):
+            x, t = self.ex(a[1])
+            if t != "Str":
+                raise Untranslatable("re.split of " + ast.unparse(a[1])[:60])
+            alts = a[0].value.split("|")
+            grouped = [re.fullmatch(r"\((.)\)", p) for p in alts]
+            if not all(grouped) or any(m.group(1) in set(".^$*+?{}[]\\|()") for m in grouped):
+                raise Untranslatable("regular expression %r" % a[0].value)
+            pred = "(fun c => " + " || ".join("c == %s" % _ix_chars(m.group(1))[1:-1] for m in grouped) + ")"
+            return "(reSplit %s %s %s)" % (pred, pred, x), "ReSplit"        # must go through filter(None, …)
+        if isinstance(f, ast.Attribute):
+            m = f.attr
+            if m == "rstrip" and not a:
+                x, t = self.ex(f.value)
+                if t == "Str":
+                    return "(rstrip %s)" % x, "Str"
+            if m == "split" and len(a) == 1 and self.strconst(a[0]) and len(a[0].value) == 1:
+                x, t = self.ex(f.value)
+                if t == "Str":
+                    return "(splitOnChar %s %s)" % (_ix_chars(a[0].value)[1:-1], x), ("List", "Str")
+            if m == "tell" and not a:
+                x, t = self.ex(f.value)
+                if t == "GafFile":
+                    return "%s.pos" % x, "Nat"
+            if m == "count" and len(a) == 1:
+                x, t = self.ex(f.value)
+                if isinstance(t, tuple) and t[0] == "List":
+                    y, ty = self.ex(a[0])
+                    return "((%s.count %s : Nat) : Int)" % (_sp_par(x), self.coerce(y, ty, t[1], "argument of count")), "Int"
+            raise Untranslatable("call " + ast.unparse(e)[:70])
+        if isinstance(f, ast.Name) and f.id in own.known:
+            name, ptys, rty = own.known[f.id]
+            parts = [self.ex(v) for v in a]
+            if [t for _, t in parts] != ptys:
+                raise Untranslatable("arguments of %s" % f.id)
+            return self.bind("(%s %s)" % (name, " ".join(x for x, _ in parts)), rty)
+        raise Untranslatable("call " + ast.unparse(e)[:70])
+
+    # ---- statements -------------------------------------------------------------------------------------
+    @staticmethod
+    def is_log(st):
+        """logger.<level>(…) whose arguments are names and constants put into a format: nothing is evaluated that could raise or assign"""
+        if not (isinstance(st, ast.Expr) and isinstance(st.value, ast.Call) and isinstance(st.value.func, ast.Attribute)
+                and isinstance(st.value.func.value, ast.Name) and st.value.func.value.id in ("logger", "logging")):
+            return False
+        for a in list(st.value.args) + [kw.value for kw in st.value.keywords]:
+            for n in ast.walk(a):
+                if not isinstance(n, (ast.Name, ast.Constant, ast.Tuple, ast.BinOp, ast.Mod, ast.Load)):
+                    raise Untranslatable("argument of a logging call: " + ast.unparse(a)[:60])
+        return True
+
+    def block(self, stmts, ind, k):
+        """k: continuations  fin / cont / brk / ret : ctx -> text"""
+        pad = " " * ind
+        if not stmts:
+            return pad + k["fin"](self)
+        st, rest = stmts[0], stmts[1:]
+        if isinstance(st, ast.Expr) and isinstance(st.value, ast.Constant):
+            return self.block(rest, ind, k)             # a docstring
+        if isinstance(st, ast.Pass) or self.is_log(st):
+            return self.block(rest, ind, k)
+        if isinstance(st, ast.Continue):
+            if "cont" not in k:
+                raise Untranslatable("continue outside a loop")
+            return pad + k["cont"](self)
+        if isinstance(st, ast.Break):
+            if "brk" not in k:
+                raise Untranslatable("break outside a while loop")
+            return pad + k["brk"](self)
+        if isinstance(st, ast.Return):
+            if "ret" not in k or st.value is None:
+                raise Untranslatable("return")
+            x, t = self.ex(st.value)
+            return self.flush(pad) + pad + k["ret"](self, x, t)
+        if isinstance(st, ast.With):
+            if not (len(st.items) == 1 and st.items[0].optional_vars is None and isinstance(st.items[0].context_expr, ast.Call)
+                    and ast.unparse(st.items[0].context_expr.func) == "timers"):
+                raise Untranslatable("with " + ast.unparse(st.items[0])[:60])
+            return self.block(list(st.body) + rest, ind, k)
+        if isinstance(st, ast.Assert):
+            x, t = self.truth(st.test)
+            pre = self.flush(pad)
+            return "%s%sif %s then\n%s\n%selse\n%s  .error .assertionError" % (pre, pad, x, self.fork().block(rest, ind + 2, k), pad, pad)
+        if isinstance(st, ast.If):
+            return self.if_stmt(st, rest, ind, k)
+        if isinstance(st, ast.Try):
+            return self.try_stmt(st, rest, ind, k)
+        if isinstance(st, ast.For):
+            return self.for_stmt(st, rest, ind, k)
+        if isinstance(st, ast.While):
+            return self.while_stmt(st, rest, ind, k)
+        if isinstance(st, ast.Assign) and len(st.targets) == 1:
+            return self.assign(st.targets[0], st.value, ind) + self.block(rest, ind, k)
+        if isinstance(st, ast.AugAssign) and isinstance(st.target, ast.Name) and isinstance(st.op, (ast.Add, ast.Sub)):
+            lean, t = self.lookup(st.target.id)
+            x, tx = self.ex(st.value)
+            if t != "Int" or tx != "Int":
+                raise Untranslatable("augmented assignment " + ast.unparse(st)[:60])
+            return self.flush(pad) + self.let(pad, st.target.id, "Int", "(%s %s %s)" % (lean, "+" if isinstance(st.op, ast.Add) else "-", x)) + self.block(rest, ind, k)
+        if isinstance(st, ast.Expr) and isinstance(st.value, ast.Call) and isinstance(st.value.func, ast.Attribute) and isinstance(st.value.func.value, ast.Name):
+            c = st.value
+            target = c.func.value.id
+            if c.func.attr == "append" and len(c.args) == 1 and not c.keywords:
+                lean, t = self.lookup(target)
+                x, tx = self.ex(c.args[0])
+                if not (isinstance(t, tuple) and t[0] == "List"):
+                    raise Untranslatable("append to a %s" % _sp_ty(t))
+                x = self.coerce(x, tx, t[1], "append to %s" % target)
+                return self.flush(pad) + self.let(pad, target, t, "%s ++ [%s]" % (lean, x)) + self.block(rest, ind, k)
+            if c.func.attr == "sort" and not c.args and [kw.arg for kw in c.keywords] == ["key"]:
+                # L.sort(key=functools.cmp_to_key(F)) for a translated comparator F
+                key = c.keywords[0].value
+                if not (isinstance(key, ast.Call) and ast.unparse(key.func) in ("functools.cmp_to_key", "cmp_to_key") and len(key.args) == 1
+                        and not key.keywords and isinstance(key.args[0], ast.Name) and key.args[0].id in self.fn.owner.cmps and not self.has(key.args[0].id)):
+                    raise Untranslatable("sort key " + ast.unparse(key)[:60])
+                lean, t = self.lookup(target)
+                if t != ("List", "Aln"):
+                    raise Untranslatable("sort of a %s" % _sp_ty(t))
+                self.fn.owner.sorted_var = target
+                return self.let(pad, target, t, "pySortCmp %s %s" % (self.fn.owner.cmps[key.args[0].id], lean)) + self.block(rest, ind, k)
+        raise Untranslatable("statement " + ast.unparse(st)[:70])
+
+    def if_stmt(self, st, rest, ind, k):
+        pad = " " * ind
+        t = st.test
+        # `if X is None:` / `if X is not None:` on a variable that may be None: in the other branch X is not None
+        if (isinstance(t, ast.Compare) and len(t.ops) == 1 and isinstance(t.ops[0], (ast.Is, ast.IsNot)) and isinstance(t.left, ast.Name)
+                and isinstance(t.comparators[0], ast.Constant) and t.comparators[0].value is None and self.has(t.left.id)
+                and isinstance(self.peek(t.left.id)[1], tuple) and self.peek(t.left.id)[1][0] == "Option"):
+            lean, ty = self.lookup(t.left.id)
+            a, b = self.fork(), self.fork()
+            on_none, on_some = (st.body, st.orelse) if isinstance(t.ops[0], ast.Is) else (st.orelse, st.body)
+            none_text = a.block(list(on_none) + rest, ind + 2, k)
+            new = b.define(t.left.id, ty[1])
+            some_text = b.block(list(on_some) + rest, ind + 2, k)
+            return "%smatch %s with\n%s| none =>\n%s\n%s| some %s =>\n%s" % (pad, lean, pad, none_text, pad, new, some_text)
+        x, tx = self.truth(t)
+        pre = self.flush(pad)
+        a, b = self.fork(), self.fork()
+        then = a.block(list(st.body) + rest, ind + 2, k)
+        els = b.block(list(st.orelse) + rest, ind + 2, k)
+        return "%s%sif %s then\n%s\n%selse\n%s" % (pre, pad, x, then, pad, els)
+
+    def try_stmt(self, st, rest, ind, k):
+        # try: v = f(line)  except TypeError: v = f(line.decode("utf8"))   (bytes from a BGZF reader; the model's lines are text): one assignment
+        if len(st.handlers) != 1 or st.orelse or st.finalbody or st.handlers[0].name is not None:
+            raise Untranslatable("try statement shape")
+        h = st.handlers[0]
+        if h.type is None or ast.unparse(h.type) != "TypeError":
+            raise Untranslatable("handler for %s" % (ast.unparse(h.type) if h.type is not None else "everything"))
+
+        class Undecode(ast.NodeTransformer):
+            def visit_Call(self, node):
+                self.generic_visit(node)
+                if (isinstance(node.func, ast.Attribute) and node.func.attr == "decode" and len(node.args) == 1 and not node.keywords
+                        and isinstance(node.args[0], ast.Constant) and str(node.args[0].value).lower().replace("-", "") == "utf8"):
+                    return node.func.value
+                return node
+        if len(st.body) != 1 or len(h.body) != 1 or not isinstance(st.body[0], ast.Assign) or len(st.body[0].targets) != 1:
+            raise Untranslatable("try / except TypeError shape")
+        other = Undecode().visit(ast.parse(ast.unparse(h.body[0])).body[0])
+        if ast.dump(other) != ast.dump(ast.parse(ast.unparse(st.body[0])).body[0]):
+            raise Untranslatable("the TypeError handler is not the same assignment on the decoded line")
+        return self.assign(st.body[0].targets[0], st.body[0].value, ind) + self.block(rest, ind, k)
+
+    def assign(self, tgt, val, ind):
+        pad = " " * ind
+        own = self.fn.owner
+        if isinstance(tgt, ast.Name):
+            if isinstance(val, ast.Call) and ast.unparse(val.func) in ("namedtuple", "collections.namedtuple"):
+                # a record type: its fields must be those of the model's `Aln` (BO ↦ bo, …)
+                if not (len(val.args) == 2 and not val.keywords and isinstance(val.args[1], (ast.List, ast.Tuple))
+                        and all(self.strconst(x) for x in val.args[1].elts)):
+                    raise Untranslatable("namedtuple " + ast.unparse(val)[:60])
+                fields = [x.value for x in val.args[1].elts]
+                if sorted(f.lower() for f in fields) != sorted(n for n, _ in _SP_ALN) or len(set(fields)) != len(fields) or self.has(tgt.id):
+                    raise Untranslatable("the fields of %s are not those of the model's Aln" % tgt.id)
+                own.records[tgt.id] = fields
+                return ""
+            if tgt.id in own.records or tgt.id in own.known or tgt.id in own.cmps:
+                raise Untranslatable("assignment to " + tgt.id)
+            if isinstance(val, ast.Constant) and val.value is None:
+                t = self.static_var(tgt.id)
+                if t is None:
+                    raise Untranslatable("the type of %s (initialised with None) is not known" % tgt.id)
+                if t == "NoneT":
+                    return self.let(pad, tgt.id, "NoneT", "()")
+                return self.let(pad, tgt.id, ("Option", t), "none")
+            if isinstance(val, ast.List) and not val.elts:
+                tys = []
+                for n in ast.walk(self.fn.pyfn):
+                    if (isinstance(n, ast.Call) and isinstance(n.func, ast.Attribute) and n.func.attr == "append" and isinstance(n.func.value, ast.Name)
+                            and n.func.value.id == tgt.id and len(n.args) == 1):
+                        t = self.static(n.args[0])
+                        if t not in tys:
+                            tys.append(t)
+                if len(tys) != 1 or tys[0] in (None, "NoneT", "Lit"):
+                    raise Untranslatable("the type of the empty list %s is not known" % tgt.id)
+                return self.let(pad, tgt.id, ("List", tys[0]), "[]")
+            if (isinstance(val, ast.Call) and isinstance(val.func, ast.Attribute) and val.func.attr == "readline" and not val.args and not val.keywords
+                    and isinstance(val.func.value, ast.Name) and self.peek(val.func.value.id)[1] == "GafFile"):
+                f = val.func.value.id
+                if f == tgt.id:
+                    raise Untranslatable("the line read is assigned to the file variable")
+                lf, _ = self.lookup(f)
+                out = self.let(pad, tgt.id, "Str", "%s.rest.head?.getD []" % lf)
+                return out + self.let(pad, f, "GafFile", "⟨%s.pos + 1, %s.rest.tail⟩" % (lf, lf))
+            x, t = self.ex(val)
+            if t in ("ReSplit", "Prop", "NoneT"):
+                raise Untranslatable("value of " + ast.unparse(val)[:60])
+            if t == "Lit":
+                cur = self.peek(tgt.id)[1] if self.has(tgt.id) else "Str"
+                cur = cur[1] if isinstance(cur, tuple) and cur[0] == "Option" else cur
+                if cur not in ("Str", "String"):
+                    raise Untranslatable("a string constant assigned to %s" % tgt.id)
+                x, t = self.coerce(x, "Lit", cur, "assignment"), cur
+            return self.flush(pad) + self.let(pad, tgt.id, t, x)
+        if isinstance(tgt, ast.Tuple) and tgt.elts and all(isinstance(v, ast.Name) for v in tgt.elts) and len({v.id for v in tgt.elts}) == len(tgt.elts):
+            x, t = self.ex(val)
+            if not (isinstance(t, tuple) and t[0] == "Tuple" and len(t[1]) == len(tgt.elts)):
+                raise Untranslatable("unpacking " + ast.unparse(val)[:60])
+            out = self.flush(pad)
+            if not re.fullmatch(r"v\d+", x):
+                v = self.tmp()
+                out += "%slet %s : %s := %s\n" % (pad, v, _sp_ty(t), x)
+                x = v
+            n = len(tgt.elts)
+            for i, v in enumerate(tgt.elts):
+                out += self.let(pad, v.id, t[1][i], _sp_proj(x, i, n))
+            return out
+        raise Untranslatable("assignment to " + ast.unparse(tgt)[:60])
+
+    def carried(self, body):
+        order = [py for py, _, _ in self.env]
+        c = [n for n in _ix_mutated(body) if self.has(n)]
+        return sorted(set(c), key=lambda n: max(i for i, p in enumerate(order) if p == n))
+
+    def loop_parts(self, cvars, body_ctx, what):
+        """the lets that open a loop body, and the function that packs the state at the end of an iteration"""
+        n = len(cvars)
+        head = "".join(body_ctx.let("  ", py, ty, _sp_proj("s", i, n)) for i, (py, _, ty) in enumerate(cvars))
+
+        def pack(c):
+            parts = []
+            for py, _, ty in cvars:
+                x, t = c.lookup(py)
+                parts.append(c.coerce(x, t, ty, "%s: the type of %s changes in the loop" % (what, py)))
+            return parts[0] if n == 1 else "(" + ", ".join(parts) + ")"
+        sty = _sp_ty(cvars[0][2]) if n == 1 else _sp_ty(("Tuple", tuple(ty for _, _, ty in cvars)))
+        return head, pack, sty
+
+    def params_of(self, body_ctx, skip):
+        params, seen = [], set()
+        for _, lean, _ in self.env:
+            if lean in body_ctx.used and lean not in skip and lean not in seen:
+                params.append((lean, [t for _, l, t in self.env if l == lean][-1]))
+                seen.add(lean)
+        for lean, _ in params:
+            self.lookup([py for py, l, _ in self.env if l == lean][-1])
+        return params
+
+    def emit_aux(self, st, kind, make):
+        """definitions of loop bodies: a loop that is translated twice (the statements after an if are translated in both branches) is emitted once"""
+        own = self.fn.owner
+        self.fn.nloop += 1
+        aux = "%s_%s%d" % (self.fn.lean, kind, self.fn.nloop)
+        text = make(aux)
+        canon = text.replace(aux, "@")
+        for (sid, c), name in own.aux_memo.items():
+            if sid == id(st) and c == canon:
+                self.fn.nloop -= 1
+                return name
+        own.aux_memo[(id(st), canon)] = aux
+        own.defs.append(text)
+        return aux
+
+    def for_stmt(self, st, rest, ind, k):
+        pad = " " * ind
+        if st.orelse or not isinstance(st.target, ast.Name):
+            raise Untranslatable("for statement shape")
+        it, tit = self.ex(st.iter)
+        if not (isinstance(tit, tuple) and tit[0] == "List"):
+            raise Untranslatable("loop over " + ast.unparse(st.iter)[:60])
+        pre = self.flush(pad)
+        if self.has(st.target.id):
+            raise Untranslatable("the loop variable %s is also a variable of the enclosing block" % st.target.id)
+        carried = self.carried(st.body)
+        if not carried:
+            raise Untranslatable("for loop without state")
+        cvars = [(n,) + self.lookup(n) for n in carried]
+        body = _SpCtx(self.fn, self.env)
+        head, pack, sty = self.loop_parts(cvars, body, "for")
+        lv = body.define(st.target.id, tit[1])
+        text = body.block(list(st.body), 2, {"fin": lambda c: ".ok " + pack(c), "cont": lambda c: ".ok " + pack(c)})
+        if body.flags["fuel"]:
+            raise Untranslatable("a while loop inside a for loop")
+        params = self.params_of(body, {l for _, l, _ in cvars})
+        line = ast.unparse(st).split("\n")[0].rstrip(":").replace("-/", "- /")
+        aux = self.emit_aux(st, "for", lambda aux: "/-- body of `%s`; the state is %s -/\ndef %s %s(s : %s) (%s : %s) : Except PyExc %s :=\n%s%s\n" % (
+            line, ", ".join("`%s`" % n for n in carried), aux, "".join("(%s : %s) " % (l, _sp_ty(t)) for l, t in params), sty, lv, _sp_ty(tit[1]), _sp_par(sty), head, text))
+        init = cvars[0][1] if len(cvars) == 1 else "(" + ", ".join(l for _, l, _ in cvars) + ")"
+        out = "%s%s(%s.foldlM (%s%s) %s).bind fun s =>\n" % (pre, pad, _sp_par(it), aux, "".join(" " + l for l, _ in params), init)
+        for i, (n, _, ty) in enumerate(cvars):
+            out += self.let(pad, n, ty, _sp_proj("s", i, len(cvars)))
+        return out + self.block(rest, ind, k)
+
+    def while_stmt(self, st, rest, ind, k):
+        pad = " " * ind
+        if st.orelse or not (isinstance(st.test, ast.Constant) and st.test.value is True):
+            raise Untranslatable("while loop that is not `while True:`")
+        if self.flags["fuel"]:
+            raise Untranslatable("two while loops")
+        carried = self.carried(st.body)
+        if not carried:
+            raise Untranslatable("while loop without state")
+        cvars = [(n,) + self.lookup(n) for n in carried]
+        body = _SpCtx(self.fn, self.env)
+        head, pack, sty = self.loop_parts(cvars, body, "while")
+        text = body.block(list(st.body), 2, {"fin": lambda c: ".ok (true, %s)" % pack(c), "cont": lambda c: ".ok (true, %s)" % pack(c),
+                                              "brk": lambda c: ".ok (false, %s)" % pack(c)})
+        if body.flags["fuel"]:
+            raise Untranslatable("nested while loops")
+        params = self.params_of(body, {l for _, l, _ in cvars})
+        aux = self.emit_aux(st, "while", lambda aux: "/-- body of `while True:` (`false` = `break`); the state is %s -/\ndef %s %s(s : %s) : Except PyExc (Bool × %s) :=\n%s%s\n" % (
+            ", ".join("`%s`" % n for n in carried), aux, "".join("(%s : %s) " % (l, _sp_ty(t)) for l, t in params), sty, _sp_par(sty), head, text))
+        self.flags["fuel"] = True
+        init = cvars[0][1] if len(cvars) == 1 else "(" + ", ".join(l for _, l, _ in cvars) + ")"
+        out = "%s(whileTrue (%s%s) fuel %s).bind fun s =>\n" % (pad, aux, "".join(" " + l for l, _ in params), init)
+        for i, (n, _, ty) in enumerate(cvars):
+            out += self.let(pad, n, ty, _sp_proj("s", i, len(cvars)))
+        self.flags["while_state"] = carried
+        return out + self.block(rest, ind, k)
+
+
+def _sp_positional(fn, n):
+    a = fn.args
+    if len(a.args) != n or a.vararg or a.kwarg or a.kwonlyargs or a.defaults or getattr(a, "posonlyargs", []):
+        raise Untranslatable("signature of %s" % fn.name)
+    return [x.arg for x in a.args]
+
+
+def _gen_sort_pass():
+    _, src = src_of("gaftools/cli/sort.py")
+    mod = ast.parse(src)
+    own = _SpOwner(mod)
+
+    def raiser(msg):
+        def f(*_):
+            raise Untranslatable(msg)
+        return f
+
+    # ---- process_alignment(line, nodes, offset): the fields of the record, the node table, the ordinal of the record
+    pa = find_func(mod, "process_alignment")
+    pnames = _sp_positional(pa, 3)
+    fn = _SpFn(own, pa, "processAlignment")
+    ctx = _SpCtx(fn, [])
+    ptypes = [("List", "Str"), "Nodes", "Nat"]
+    pl = [ctx.define(n, t) for n, t in zip(pnames, ptypes)]
+    rty = ("Tuple", ("Int", "Int", "Int", "Int", "String"))
+
+    def ret(c, x, t):
+        if t != rty:
+            raise Untranslatable("process_alignment returns a %s" % _sp_ty(t))
+        return ".ok " + x
+    body = ctx.block(list(pa.body), 2, {"fin": raiser("process_alignment may end without a return"), "ret": ret})
+    if ctx.flags["fuel"]:
+        raise Untranslatable("a while loop in process_alignment")
+    own.defs.append("/-- `process_alignment(%s)`: `(bo, no, start, inv, sn)` or the exception -/\ndef processAlignment %s: Except PyExc %s :=\n%s\n" % (
+        ", ".join(pnames), "".join("(%s : %s) " % (l, _sp_ty(t)) for l, t in zip(pl, ptypes)), _sp_ty(rty), body))
+    own.known["process_alignment"] = ("processAlignment", ptypes, rty)
+    pa_defs, own.defs = own.defs, []
+
+    # ---- sort(gaf, nodes, …): from the namedtuple to `gaf_alignments.sort(…)`
+    find_func(mod, "compare_gaf")           # tied in Gen/CmpGaf.lean
+    own.cmps["compare_gaf"] = "Gaftools.Gen.cmpGaf"
+    so = find_func(mod, "sort")
+    sparams = _sp_positional(so, len(so.args.args))
+    top = list(so.body)
+    has = lambda st, p: any(p(n) for n in ast.walk(st))        # noqa: E731
+    wi = [i for i, st in enumerate(top) if has(st, lambda n: isinstance(n, ast.While))]
+    si = [i for i, st in enumerate(top) if has(st, lambda n: isinstance(n, ast.Call) and isinstance(n.func, ast.Attribute) and n.func.attr == "sort")]
+    if len(wi) != 1 or len(si) != 1 or si[0] <= wi[0]:
+        raise Untranslatable("sort: one reading loop followed by one call of list.sort expected")
+    wi, si = wi[0], si[0]
+    lo = wi
+    while lo > 0 and isinstance(top[lo - 1], ast.Assign) and len(top[lo - 1].targets) == 1 and isinstance(top[lo - 1].targets[0], ast.Name) and (
+            isinstance(top[lo - 1].value, ast.Constant) or (isinstance(top[lo - 1].value, ast.List) and not top[lo - 1].value.elts)
+            or (isinstance(top[lo - 1].value, ast.Call) and ast.unparse(top[lo - 1].value.func) in ("namedtuple", "collections.namedtuple"))):
+        lo -= 1
+    # what precedes is checked, not translated: logging, and the opening of the file in text or in BGZF mode
+    pre = top[:lo]
+    gz = [st for st in pre if isinstance(st, ast.If) and "is_file_gzipped" in ast.unparse(st.test)]
+    if len(gz) != 1 or len(_ix_mutated([gz[0]])) != 1 or not gz[0].orelse:
+        raise Untranslatable("sort: how the GAF is opened")
+    reader = _ix_mutated([gz[0]])[0]
+    for br in (gz[0].body, gz[0].orelse):
+        if not (len(br) == 1 and isinstance(br[0], ast.Assign) and isinstance(br[0].value, ast.Call) and br[0].value.args
+                and ast.unparse(br[0].value.args[0]) == sparams[0] and ast.unparse(br[0].value.func) in ("libcbgzf.BGZFile", "open")):
+            raise Untranslatable("sort: how the GAF is opened")
+    for st in pre:
+        if st is not gz[0] and not _SpCtx.is_log(st) and not (isinstance(st, ast.Expr) and isinstance(st.value, ast.Constant)):
+            raise Untranslatable("sort: statement before the first pass: " + ast.unparse(st)[:60])
+    if reader in sparams:
+        raise Untranslatable("sort: the reader is a parameter")
+    region = top[lo:si + 1]
+    calls = [n for st in region for n in ast.walk(st) if isinstance(n, ast.Call) and isinstance(n.func, ast.Name) and n.func.id == "process_alignment"]
+    if len(calls) != 1 or len(calls[0].args) != 3 or calls[0].keywords or not isinstance(calls[0].args[1], ast.Name) or calls[0].args[1].id not in sparams:
+        raise Untranslatable("sort: the call of process_alignment")
+    nodes = calls[0].args[1].id
+    fn = _SpFn(own, so, "firstPass")
+    ctx = _SpCtx(fn, [])
+    ln, lr = ctx.define(nodes, "Nodes"), ctx.define(reader, "GafFile")
+
+    def fin(c):
+        sv = own.sorted_var
+        if sv is None or c.peek(sv)[1] != ("List", "Aln"):
+            raise Untranslatable("sort: no sorted list of alignments")
+        outs = [sv] + [n for n in ctx.flags.get("while_state", []) if n != sv and c.peek(n)[1] != "GafFile"]
+        if [c.peek(n)[1] for n in outs] != [("List", "Aln"), "Int"]:
+            raise Untranslatable("sort: the variables of the first pass are %s" % outs)
+        fin.outs = outs
+        return ".ok (" + ", ".join(c.lookup(n)[0] for n in outs) + ")"
+    body = ctx.block(region, 2, {"fin": fin})
+    if not ctx.flags["fuel"]:
+        raise Untranslatable("sort: no loop translated")
+    own.defs.append("/-- `sort`, from `%s` to `%s`: (%s) -/\ndef firstPass (%s : String → Option NodeTags) (%s : GafFile) (fuel : Nat) : Except PyExc (List Aln × Int) :=\n%s\n" % (
+        ast.unparse(region[0]).split("\n")[0].replace("-/", "- /")[:120], ast.unparse(top[si]).split("\n")[-1].strip().replace("-/", "- /")[:90],
+        ", ".join("`%s`" % n for n in fin.outs), ln, lr, body))
+    return ("import Gaftools.Model.Sort\nimport Gaftools.Model.ConvText\nimport Gaftools.Gen.CmpGaf\n"
+            "/-! generated by harness/translate.py from gaftools/cli/sort.py : process_alignment and the first pass of sort up to list.sort, statement by statement — do not edit -/\n"
+            "set_option linter.unusedVariables false\n"
+            "namespace Gaftools.Gen.SortPass\nopen Gaftools.Gaf Gaftools.Sort Gaftools.ConvText\n\n" + _SP_PRELUDE +
+            "\n/-! ## process_alignment -/\n\n" + "\n".join(pa_defs) + "\n/-! ## sort: the first pass and the call of list.sort -/\n\n" + "\n".join(own.defs) + "end Gaftools.Gen.SortPass\n")
+
+
+def gen_sort_pass():
+    try:
+        return _gen_sort_pass()
+    except Untranslatable:
+        raise
+    except Exception as e:      # any surprise in the shape of the source is "outside the subset", never an alarm by itself
+        raise Untranslatable("sort.py: %s: %s" % (type(e).__name__, e))
+
+
+GENERATORS["SortPass"] = gen_sort_pass
+
+
+# ---------------------------------------------------------------------------------------------------------
+# gfa.Node.neighbors / in_direction / children / is_equal_to and GFA.remove_lonely_nodes / graph_from_comp / list_is_path /
+# get_path / get_contig_length / return_gfa_path / is_equal_to (C15 extra, Model/GraphExtra.lean): every statement, in source order,
+# as a Lean term of type `Except Exc _` (`.error` = the Python raises).  Loops are folds whose body says "go on" or "return v"
+# (`forR`), a comprehension whose element or filter can raise is `compE`, a sub-expression that can raise is bound by a `match`
+# in evaluation order.  A `for a in <list of string constants>` is unrolled (that is how `getattr(self, a)` gets a type).
+
+import copy  # noqa: E402
+
+_GH_LEAN = {"Str": "String", "Int": "Int", "Bool": "Bool", "Node": "Node", "GFA": "GFA", "AdjSet": "List Adj", "Adj": "Adj",
+            "TagDict": "List Tag", "TagVal": "Tag", "NodeDict": "List Node", "C2N": "List (String × List String)", "Unit": "Unit"}
+
+_GH_EXC = {"ValueError": "valueError", "IndexError": "indexError", "KeyError": "keyError", "AttributeError": "attributeError"}
+
+# the slots of `Node` the model stores: python slot -> (Lean field, type); `seq_len` is derived (`seq.length`)
+_GH_NODE_FIELDS = {"id": ("id", "Str"), "seq": ("seq", "Str"), "start": ("startAdj", "AdjSet"), "end": ("endAdj", "AdjSet"),
+                   "tags": ("tags", "TagDict")}
+
+# (class, method, Lean name, parameter types, result type, mutates self) — the typing the translation assumes
+_GH_SIGS = [
+    ("Node", "neighbors", "nodeNeighbors", [], ("List", "Str"), False),
+    ("Node", "in_direction", "nodeInDirection", ["Str", "Int"], "Bool", False),
+    ("Node", "children", "nodeChildren", ["Int"], ("List", "Str"), False),
+    ("Node", "is_equal_to", "nodeIsEqualTo", ["Node", "Bool"], "Bool", False),
+    ("GFA", "remove_lonely_nodes", "gfaRemoveLonelyNodes", [], "GFA", True),
+    ("GFA", "graph_from_comp", "gfaGraphFromComp", [("List", "Str")], "GFA", False),
+    ("GFA", "list_is_path", "gfaListIsPath", [("List", "Str")], "Bool", False),
+    ("GFA", "get_path", "gfaGetPath", ["Str", "Bool"], ("List", "Str"), False),
+    ("GFA", "get_contig_length", "gfaGetContigLength", ["Str", "Bool"], "Int", False),
+    ("GFA", "return_gfa_path", "gfaReturnGfaPath", [("List", "Str")], "Str", False),
+    ("GFA", "is_equal_to", "gfaIsEqualTo", ["GFA", "Bool"], "Bool", False),
+]
+
+_GH_RESERVED = {"fun", "let", "if", "then", "else", "match", "with", "at", "from", "have", "show", "do", "end", "open", "in", "def", "by",
+                "where", "structure", "instance", "theorem", "Type", "Prop", "true", "false", "some", "none", "st", "it", "err", "r",
+                "Exc", "GFA", "Node", "Graph", "Adj", "Tag", "Step", "forR", "compE", "mapE", "pyIdx", "pyRange", "pyRangeFrom",
+                "pySorted", "pySortedBy", "pySum", "pyInt", "setEq", "dictEq", "tagsGet", "c2nGet", "nodesSet", "callRemoveNode",
+                "newNode", "emptyGFA", "decide", "removeNode", "addNode", "addEdge"} | {s[2] for s in _GH_SIGS}
+
+
+def _gh_lt(t):
+    if isinstance(t, tuple):
+        s = _gh_lt(t[1])
+        return {"List": "List %s", "Opt": "Option %s"}[t[0]] % (s if " " not in s else "(%s)" % s)
+    if t in _GH_LEAN:
+        return _GH_LEAN[t]
+    raise Untranslatable("type %s" % (t,))
+
+
+def _gh_lta(t):
+    s = _gh_lt(t)
+    return s if " " not in s else "(%s)" % s
+
+
+def _gh_str(v):
+    for c in v:
+        if not (32 <= ord(c) < 127):
+            raise Untranslatable("character %r in a string constant" % c)
+    return '"%s"' % v.replace("\\", "\\\\").replace('"', '\\"')
+
+
+def _gh_is_exit(st):
+    return isinstance(st, ast.Expr) and isinstance(st.value, ast.Call) and ast.unparse(st.value.func) == "sys.exit"
+
+
+def _gh_is_log(st):
+    return isinstance(st, ast.Expr) and isinstance(st.value, ast.Call) and ast.unparse(st.value.func).startswith("logging.")
+
+
+def _gh_terminates(stmts):
+    """the block never reaches its end"""
+    for st in stmts:
+        if isinstance(st, (ast.Return, ast.Raise, ast.Continue)) or _gh_is_exit(st):
+            return True
+        if isinstance(st, ast.If) and st.orelse and _gh_terminates(st.body) and _gh_terminates(st.orelse):
+            return True
+    return False
+
+
+class _GhSubst(ast.NodeTransformer):
+    """the loop variable of an unrolled loop, replaced by the constant of this round"""
+
+    def __init__(self, name, value):
+        self.name, self.value = name, value
+
+    def visit_Name(self, n):
+        if n.id == self.name:
+            if not isinstance(n.ctx, ast.Load):
+                raise Untranslatable("the variable %s of an unrolled loop is assigned" % n.id)
+            return ast.copy_location(ast.Constant(self.value), n)
+        return n
+
+
+class _GhCtx:
+    def __init__(self, fall, ret, in_loop):
+        self.fall = fall          # (env, ind) -> text: the block reaches its end
+        self.ret = ret            # (term, ind) -> text: `return term`
+        self.in_loop = in_loop
+
+
+class _GH:
+    """typed translation of one method.  Every Python variable is a Lean variable of the same name, re-bound by `let` on
+    assignment; the object a method mutates is re-bound the same way."""
+
+    def __init__(self, sigs, cls, sig, fn):
+        self.sigs = sigs                # (class, method) -> {"lean", "params", "ret", "mut", "names", "defaults"}
+        self.cls, self.sig, self.fn = cls, sig, fn
+        self.lname, self.pyname = sig["lean"], "%s.%s" % (cls, fn.name)
+        self.k = 0
+        self.loops = 0
+        self.defs = []
+        self.node_key = {}              # local variable holding a fresh `Node(k)` -> the Lean term of k
+        self.const_lists = {}           # local variable bound once to a list of string constants -> the constants
+        self.stores = {}
+        for n in ast.walk(fn):
+            if isinstance(n, ast.Name) and isinstance(n.ctx, ast.Store):
+                self.stores[n.id] = self.stores.get(n.id, 0) + 1
+            if n is not fn and isinstance(n, (ast.While, ast.With, ast.Try, ast.Global, ast.Nonlocal, ast.Yield, ast.YieldFrom, ast.Break, ast.AugAssign,
+                              ast.AnnAssign, ast.NamedExpr, ast.Delete, ast.FunctionDef, ast.ClassDef, ast.Await, ast.AsyncFor, ast.Starred,
+                              ast.Assert, ast.IfExp, ast.DictComp, ast.SetComp, ast.GeneratorExp)):
+                raise Untranslatable("%s: %s" % (self.pyname, type(n).__name__))
+
+    # ---- helpers
+    def fresh(self):
+        self.k += 1
+        return "v%d" % self.k
+
+    def check_name(self, n):
+        if n in _GH_RESERVED or re.fullmatch(r"v\d+", n) or not re.fullmatch(r"[A-Za-z][A-Za-z0-9_]*", n) or n.endswith("_seq_len"):
+            raise Untranslatable("variable name %s" % n)
+        return n
+
+    def bind_opt(self, term, exc, binds):
+        v = self.fresh()
+        binds.append((v, term, exc))
+        return v
+
+    def bind_exc(self, term, binds):
+        v = self.fresh()
+        binds.append((v, term, None))
+        return v
+
+    @staticmethod
+    def wrap(binds, pad, inner):
+        out = []
+        for v, t, x in binds:
+            if x is None:
+                out.append("%smatch %s with\n%s| .error err => .error err\n%s| .ok %s =>" % (pad, t, pad, pad, v))
+            else:
+                out.append("%smatch %s with\n%s| none => .error .%s\n%s| some %s =>" % (pad, t, pad, x, pad, v))
+        return "\n".join(out + [inner])
+
+    def inner_fn(self, var, vty, binds, result):
+        """`fun var => …` for an element function that can raise"""
+        pad = " " * 6
+        return "(fun (%s : %s) =>\n%s)" % (var, _gh_lt(vty), self.wrap(binds, pad, pad + result))
+
+    @staticmethod
+    def elem_type(t, what):
+        if t == "AdjSet":
+            return "Adj"
+        if t == "NodeDictValues":
+            return "Node"
+        if isinstance(t, tuple) and t[0] == "List":
+            return t[1]
+        raise Untranslatable("iteration over %s" % what)
+
+    def as_node(self, term, ty, binds, what):
+        """a node object; `None` (what `GFA.__getitem__` gives for an unknown key) has no attributes: AttributeError"""
+        if ty == "Node":
+            return term
+        if ty == ("Opt", "Node"):
+            return self.bind_opt(term, "attributeError", binds)
+        raise Untranslatable("%s is not a node" % what)
+
+    # ---- expressions
+    def ex(self, e, env, binds, expect=None):
+        t, ty = self._ex(e, env, binds, expect)
+        if expect is not None and ty != expect:
+            raise Untranslatable("a value of type %s where %s is needed (%s)" % (ty, expect, ast.unparse(e)[:60]))
+        return t, ty
+
+    def truth(self, e, env, binds):
+        """the truth value of `e` as a Lean Bool"""
+        t, ty = self.ex(e, env, binds)
+        if ty == "Bool":
+            return t
+        if isinstance(ty, tuple) and ty[0] == "List":
+            return "(!%s.isEmpty)" % t
+        raise Untranslatable("truth value of %s" % ast.unparse(e)[:60])
+
+    def attr(self, o, oty, name, binds, u):
+        if oty in ("Node", ("Opt", "Node")):
+            o = self.as_node(o, oty, binds, u)
+            if name in _GH_NODE_FIELDS:
+                return "%s.%s" % (o, _GH_NODE_FIELDS[name][0]), _GH_NODE_FIELDS[name][1]
+            if name == "seq_len":            # derived: `len(seq)` for every node the library makes
+                return "(%s.seq.length : Int)" % o, "Int"
+        if oty == "GFA":
+            if name == "nodes":
+                return "%s.g.nodes" % o, "NodeDict"
+            if name == "contig_to_nodes":
+                return "%s.contigToNodes" % o, "C2N"
+        raise Untranslatable("attribute %s" % u)
+
+    def _ex(self, e, env, binds, expect):
+        u = ast.unparse(e)[:70]
+        if isinstance(e, ast.Constant):
+            v = e.value
+            if isinstance(v, bool):
+                return ("true" if v else "false"), "Bool"
+            if isinstance(v, str):
+                return _gh_str(v), "Str"
+            if isinstance(v, int):
+                return "(%d : Int)" % v, "Int"
+            raise Untranslatable("constant %s" % u)
+        if isinstance(e, ast.Name):
+            if e.id in env:
+                return e.id, env[e.id]
+            raise Untranslatable("name %s" % e.id)
+        if isinstance(e, ast.Attribute):
+            o, oty = self.ex(e.value, env, binds)
+            return self.attr(o, oty, e.attr, binds, u)
+        if isinstance(e, ast.Subscript):
+            if isinstance(e.slice, ast.Slice):
+                raise Untranslatable("slice %s" % u)
+            # `G.nodes[k]`: KeyError
+            if isinstance(e.value, ast.Attribute) and e.value.attr == "nodes":
+                g, gty = self.ex(e.value.value, env, binds)
+                if gty == "GFA":
+                    k, _ = self.ex(e.slice, env, binds, "Str")
+                    return self.bind_opt("%s.g.find %s" % (g, k), "keyError", binds), "Node"
+            o, oty = self.ex(e.value, env, binds)
+            if oty == "GFA":                 # GFA.__getitem__: None for an unknown key
+                k, _ = self.ex(e.slice, env, binds, "Str")
+                return "(%s.g.find %s)" % (o, k), ("Opt", "Node")
+            if oty == "C2N":                 # a defaultdict (checked in GFA.__init__): an absent key reads as the empty list
+                k, _ = self.ex(e.slice, env, binds, "Str")
+                return "(c2nGet %s %s)" % (o, k), ("List", "Str")
+            if oty == "TagDict":
+                k, _ = self.ex(e.slice, env, binds, "Str")
+                return self.bind_opt("tagsGet %s %s" % (o, k), "keyError", binds), "TagVal"
+            idx = e.slice.value if isinstance(e.slice, ast.Constant) and isinstance(e.slice.value, int) and not isinstance(e.slice.value, bool) else None
+            if oty == "TagVal" and idx in (0, 1):       # the value of a tags entry is the pair (type, value)
+                return "%s.%s" % (o, ("ty", "val")[idx]), "Str"
+            if oty == "Adj" and idx == 0:               # (neighbour, side of the neighbour, overlap)
+                return "%s.1" % o, "Str"
+            if isinstance(oty, tuple) and oty[0] == "List":
+                k, _ = self.ex(e.slice, env, binds, "Int")
+                return self.bind_opt("pyIdx %s %s" % (o, k), "indexError", binds), oty[1]
+            raise Untranslatable("subscript %s" % u)
+        if isinstance(e, ast.List):
+            if not e.elts and isinstance(expect, tuple) and expect[0] == "List":
+                return "[]", expect
+            if e.elts and all(isinstance(x, ast.Constant) and isinstance(x.value, str) for x in e.elts):
+                return "[%s]" % ", ".join(_gh_str(x.value) for x in e.elts), ("List", "Str")
+            raise Untranslatable("list display %s" % u)
+        if isinstance(e, ast.BinOp) and type(e.op) in (ast.Add, ast.Sub):
+            a, ta = self.ex(e.left, env, binds)
+            b, _ = self.ex(e.right, env, binds, ta)
+            if ta == "Int":
+                return "(%s %s %s)" % (a, "+" if isinstance(e.op, ast.Add) else "-", b), "Int"
+            if isinstance(e.op, ast.Add) and (ta == "Str" or (isinstance(ta, tuple) and ta[0] == "List")):
+                return "(%s ++ %s)" % (a, b), ta
+            raise Untranslatable("arithmetic %s" % u)
+        if isinstance(e, ast.UnaryOp) and isinstance(e.op, ast.USub):
+            if isinstance(e.operand, ast.Constant) and isinstance(e.operand.value, int) and not isinstance(e.operand.value, bool):
+                return "(-%d : Int)" % e.operand.value, "Int"
+            a, _ = self.ex(e.operand, env, binds, "Int")
+            return "(-%s)" % a, "Int"
+        if isinstance(e, ast.UnaryOp) and isinstance(e.op, ast.Not):
+            a, ta = self.ex(e.operand, env, binds)
+            if ta == "Bool":
+                return "(!%s)" % a, "Bool"
+            if isinstance(ta, tuple) and ta[0] == "List":      # an empty list is false
+                return "%s.isEmpty" % a, "Bool"
+            raise Untranslatable("truth value of %s" % u)
+        if isinstance(e, ast.BoolOp):
+            parts = []
+            for i, x in enumerate(e.values):
+                n = len(binds)
+                parts.append(self.truth(x, env, binds))
+                if i > 0 and len(binds) > n:
+                    raise Untranslatable("an operand of %s that can raise is evaluated conditionally" % u)
+            return "(" + (" && " if isinstance(e.op, ast.And) else " || ").join(parts) + ")", "Bool"
+        if isinstance(e, ast.Compare) and len(e.ops) == 1:
+            l, r, op = e.left, e.comparators[0], type(e.ops[0])
+            if op in (ast.In, ast.NotIn):
+                a, ta = self.ex(l, env, binds)           # Python evaluates the left operand first
+                b, tb = self.ex(r, env, binds)
+                if tb != ("List", ta) or ta not in ("Str", "Int"):
+                    raise Untranslatable("membership %s" % u)
+                c = "(%s.contains %s)" % (b, a)
+                return (c if op is ast.In else "(!%s)" % c), "Bool"
+            if op in (ast.Is, ast.IsNot) and isinstance(r, ast.Constant) and r.value is None:
+                a, ta = self.ex(l, env, binds)
+                if isinstance(ta, tuple) and ta[0] == "Opt":
+                    return ("%s.isNone" if op is ast.Is else "%s.isSome") % a, "Bool"
+                raise Untranslatable("test %s" % u)
+            if op in (ast.Eq, ast.NotEq):
+                a, ta = self.ex(l, env, binds)
+                b, _ = self.ex(r, env, binds, ta)
+                if ta in ("Str", "Int", "Bool", ("List", "Str"), ("List", "Int")):
+                    c = "(%s == %s)" % (a, b)
+                elif ta == "AdjSet":                     # two sets
+                    c = "(setEq %s %s)" % (a, b)
+                elif ta == "TagDict":                    # two dicts
+                    c = "(dictEq %s %s)" % (a, b)
+                else:
+                    raise Untranslatable("comparison %s" % u)
+                return (c if op is ast.Eq else "(!%s)" % c), "Bool"
+            sym = {ast.Lt: "<", ast.Gt: ">", ast.LtE: "≤", ast.GtE: "≥"}.get(op)
+            if sym:
+                a, _ = self.ex(l, env, binds, "Int")
+                b, _ = self.ex(r, env, binds, "Int")
+                return "decide (%s %s %s)" % (a, sym, b), "Bool"
+            raise Untranslatable("comparison %s" % u)
+        if isinstance(e, ast.ListComp):
+            return self.comprehension(e, env, binds, u)
+        if isinstance(e, ast.Call):
+            return self.call(e, env, binds, expect, u)
+        raise Untranslatable("expression %s" % u)
+
+    def comprehension(self, e, env, binds, u):
+        g = e.generators[0] if len(e.generators) == 1 else None
+        if g is None or g.is_async or not isinstance(g.target, ast.Name) or len(g.ifs) > 1:
+            raise Untranslatable("comprehension %s" % u)
+        it, ity = self.ex(g.iter, env, binds)
+        var = self.check_name(g.target.id)
+        if var in env:
+            raise Untranslatable("comprehension variable %s hides a local variable" % var)
+        env2 = dict(env)
+        env2[var] = self.elem_type(ity, ast.unparse(g.iter))
+        bc, be = [], []
+        cond = self.truth(g.ifs[0], env2, bc) if g.ifs else None
+        elt, ety = self.ex(e.elt, env2, be)
+        if not bc and not be and cond is None:
+            return "(%s.map (fun (%s : %s) => %s))" % (it, var, _gh_lt(env2[var]), elt), ("List", ety)
+        pad = " " * 6
+        if cond is None:
+            body = self.wrap(be, pad, pad + ".ok (some %s)" % elt)
+        else:
+            body = self.wrap(bc, pad, "%sif %s then\n%s\n%selse\n%s  .ok none" % (
+                pad, cond, self.wrap(be, pad + "  ", pad + "  .ok (some %s)" % elt), pad, pad))
+        fn = "(fun (%s : %s) =>\n%s)" % (var, _gh_lt(env2[var]), body)
+        return self.bind_exc("compE %s %s" % (fn, it), binds), ("List", ety)
+
+    def call(self, e, env, binds, expect, u):
+        f = e.func
+        fname = f.id if isinstance(f, ast.Name) else None
+        kw = {k.arg: k.value for k in e.keywords}
+        if None in kw:
+            raise Untranslatable("call %s" % u)
+        if fname == "sorted" and len(e.args) == 1 and set(kw) <= {"key"}:
+            a, ta = self.ex(e.args[0], env, binds)
+            if ta != ("List", "Str"):
+                raise Untranslatable("sorted(%s)" % ta)
+            if "key" not in kw:
+                return "(pySorted %s)" % a, ta
+            lam = kw["key"]
+            if not (isinstance(lam, ast.Lambda) and len(lam.args.args) == 1 and not lam.args.defaults and not lam.args.vararg
+                    and not lam.args.kwarg and not lam.args.kwonlyargs and not lam.args.posonlyargs):
+                raise Untranslatable("sort key %s" % u)
+            var = self.check_name(lam.args.args[0].arg)
+            if var in env:
+                raise Untranslatable("lambda variable %s hides a local variable" % var)
+            env2 = dict(env)
+            env2[var] = "Str"
+            b2 = []
+            t, _ = self.ex(lam.body, env2, b2, "Int")
+            # all keys are computed first, left to right (any of them can raise), then the list is sorted (stable)
+            return self.bind_exc("pySortedBy %s %s" % (self.inner_fn(var, "Str", b2, ".ok %s" % t), a), binds), ta
+        if e.keywords and fname is not None:
+            raise Untranslatable("call %s" % u)
+        if fname == "len" and len(e.args) == 1:
+            a, ta = self.ex(e.args[0], env, binds)
+            if ta == "GFA":                  # GFA.__len__ (checked): len(self.nodes)
+                return "(%s.g.nodes.length : Int)" % a, "Int"
+            if ta in ("Str", "AdjSet", "TagDict", "NodeDict") or (isinstance(ta, tuple) and ta[0] == "List"):
+                return "(%s.length : Int)" % a, "Int"
+            raise Untranslatable("len of %s" % ta)
+        if fname == "int" and len(e.args) == 1:
+            a, _ = self.ex(e.args[0], env, binds, "Str")
+            return self.bind_opt("pyInt %s" % a, "valueError", binds), "Int"
+        if fname == "sum" and len(e.args) == 1:
+            a, _ = self.ex(e.args[0], env, binds, ("List", "Int"))
+            return "(pySum %s)" % a, "Int"
+        if fname == "list" and not e.args:
+            if isinstance(expect, tuple) and expect[0] == "List":
+                return "[]", expect
+            raise Untranslatable("list() of unknown type")
+        if fname == "range" and len(e.args) in (1, 2):
+            a = [self.ex(x, env, binds, "Int")[0] for x in e.args]
+            return "(pyRange %s)" % " ".join((["(0 : Int)"] + a)[-2:]), ("List", "Int")
+        if fname == "getattr" and len(e.args) == 2 and isinstance(e.args[1], ast.Constant) and isinstance(e.args[1].value, str):
+            o, oty = self.ex(e.args[0], env, binds)
+            if not e.args[1].value.isidentifier():
+                raise Untranslatable("getattr %s" % u)
+            return self.attr(o, oty, e.args[1].value, binds, u)
+        if isinstance(f, ast.Attribute):
+            m = f.attr
+            if m == "join" and isinstance(f.value, ast.Constant) and isinstance(f.value.value, str) and len(e.args) == 1 and not kw:
+                a, _ = self.ex(e.args[0], env, binds, ("List", "Str"))
+                return "(%s.intercalate %s)" % (_gh_str(f.value.value), a), "Str"
+            o, oty = self.ex(f.value, env, binds)
+            if oty == "NodeDict" and m == "values" and not e.args and not kw:
+                return o, ("List", "Node")
+            if oty in ("Node", "GFA") and (oty, m) in self.sigs:
+                sig = self.sigs[(oty, m)]
+                if sig["mut"]:
+                    raise Untranslatable("a mutating call used as a value: %s" % u)
+                args = self.args_of(e, sig, env, binds, u)
+                return self.bind_exc("%s %s" % (sig["lean"], " ".join([o] + args)), binds), sig["ret"]
+        raise Untranslatable("call %s" % u)
+
+    def args_of(self, e, sig, env, binds, u):
+        names, types, defaults = sig["names"], sig["params"], sig["defaults"]
+        if len(e.args) > len(names):
+            raise Untranslatable("call %s" % u)
+        given = dict(zip(names, e.args))
+        for k in e.keywords:
+            if k.arg is None or k.arg not in names or k.arg in given:
+                raise Untranslatable("call %s" % u)
+        # positional arguments are evaluated first, then the keyword arguments in the order written
+        terms = {}
+        for n, a in list(given.items()) + [(k.arg, k.value) for k in e.keywords]:
+            terms[n] = self.ex(a, env, binds, types[names.index(n)])[0]
+        out = []
+        for n, ty in zip(names, types):
+            if n in terms:
+                out.append(terms[n])
+            elif n in defaults:
+                out.append(self.ex(defaults[n], {}, [], ty)[0])
+            else:
+                raise Untranslatable("call %s: argument %s is missing" % (u, n))
+        return out
+
+    # ---- statements
+    def assigned(self, stmts):
+        out = []
+
+        def add(n):
+            if n not in out:
+                out.append(n)
+        for st in stmts:
+            if isinstance(st, ast.Assign):
+                for t in st.targets:
+                    while isinstance(t, (ast.Subscript, ast.Attribute)):
+                        t = t.value
+                    if isinstance(t, ast.Name):
+                        add(t.id)
+                    else:
+                        raise Untranslatable("assignment %s" % ast.unparse(st)[:60])
+            elif isinstance(st, ast.Expr) and isinstance(st.value, ast.Call) and isinstance(st.value.func, ast.Attribute):
+                t = st.value.func.value
+                while isinstance(t, (ast.Subscript, ast.Attribute)):
+                    t = t.value
+                if isinstance(t, ast.Name) and not _gh_is_log(st) and not _gh_is_exit(st):
+                    add(t.id)                 # a method call on an object may change it
+            elif isinstance(st, (ast.If, ast.For)):
+                for n in self.assigned(st.body) + self.assigned(st.orelse):
+                    add(n)
+        return out
+
+    def blk(self, stmts, env, ind, ctx):
+        pad = " " * ind
+        if not stmts:
+            return ctx.fall(env, ind)
+        st, rest = stmts[0], stmts[1:]
+        u = ast.unparse(st)[:70]
+        if (isinstance(st, ast.Expr) and isinstance(st.value, ast.Constant)) or isinstance(st, ast.Pass) or _gh_is_log(st):
+            return self.blk(rest, env, ind, ctx)         # a docstring, a log line
+        if isinstance(st, ast.Continue):
+            if not ctx.in_loop:
+                raise Untranslatable("continue outside a translated loop")
+            return ctx.fall(env, ind)
+        binds = []
+
+        def cont(env2=None):
+            return self.blk(rest, env if env2 is None else env2, ind, ctx)
+
+        def let(name, ty, term, env0=None):
+            self.check_name(name)
+            env2 = dict(env if env0 is None else env0)
+            if name in env2 and env2[name] != ty:
+                raise Untranslatable("%s changes its type (%s, %s)" % (name, env2[name], ty))
+            env2[name] = ty
+            return self.wrap(binds, pad, "%slet %s : %s := %s\n%s" % (pad, name, _gh_lt(ty), term, cont(env2)))
+        if _gh_is_exit(st):
+            return "%s.error .exit" % pad
+        if isinstance(st, ast.Raise):
+            if isinstance(st.exc, ast.Call) and isinstance(st.exc.func, ast.Name) and st.exc.func.id in _GH_EXC:
+                return "%s.error .%s" % (pad, _GH_EXC[st.exc.func.id])
+            raise Untranslatable("statement %s" % u)
+        if isinstance(st, ast.Return):
+            if st.value is None:
+                raise Untranslatable("statement %s" % u)
+            v, _ = self.ex(st.value, env, binds, self.sig["ret"])
+            if self.sig["mut"]:
+                raise Untranslatable("a return in a method that changes the object")
+            return self.wrap(binds, pad, ctx.ret(v, ind))
+        if isinstance(st, ast.Assign) and len(st.targets) == 1:
+            t = st.targets[0]
+            if isinstance(t, ast.Name):
+                self.check_name(t.id)
+                val = st.value
+                if isinstance(val, ast.Call) and isinstance(val.func, ast.Name) and val.func.id in ("Node", "GFA") and not val.keywords:
+                    if val.func.id == "Node" and len(val.args) == 1:
+                        a, _ = self.ex(val.args[0], env, binds, "Str")
+                        self.node_key[t.id] = a
+                        return let(t.id, "Node", "newNode %s" % a)
+                    if val.func.id == "GFA" and not val.args:
+                        return let(t.id, "GFA", "emptyGFA")
+                    raise Untranslatable("assignment %s" % u)
+                self.node_key.pop(t.id, None)
+                want = env[t.id] if t.id in env else None
+                if want is None and ((isinstance(val, ast.List) and not val.elts) or ast.unparse(val) == "list()"):
+                    # an empty list: its element type is the one under which the rest of the function has a translation
+                    saved = (self.k, self.loops, list(self.defs), dict(self.node_key), dict(self.const_lists))
+                    for cand in ("Str", "Int"):
+                        try:
+                            return let(t.id, ("List", cand), "[]")
+                        except Untranslatable:
+                            self.k, self.loops = saved[0], saved[1]
+                            self.defs, self.node_key, self.const_lists = list(saved[2]), dict(saved[3]), dict(saved[4])
+                    raise Untranslatable("assignment %s: the type of the list" % u)
+                v, ty = self.ex(val, env, binds, want)
+                if ty in ("NodeDict", "C2N", "NodeDictValues"):
+                    raise Untranslatable("assignment %s: an alias of a dict of the object" % u)
+                if (isinstance(val, ast.List) and val.elts and ty == ("List", "Str") and self.stores.get(t.id) == 1
+                        and t.id not in [a.arg for a in self.fn.args.args]):
+                    self.const_lists[t.id] = [x.value for x in val.elts]
+                return let(t.id, ty, v)
+            if isinstance(t, ast.Attribute) and isinstance(t.value, ast.Name) and env.get(t.value.id) == "Node":
+                var = t.value.id
+                if var not in self.node_key:             # only an object made here (no alias of a node of the graph)
+                    raise Untranslatable("assignment %s" % u)
+                if t.attr == "seq_len":                  # a slot the model derives from `seq`: the value is computed and dropped
+                    v, _ = self.ex(st.value, env, binds, "Int")
+                    return self.wrap(binds, pad, "%slet %s_seq_len : Int := %s\n%s" % (pad, var, v, cont()))
+                if t.attr in _GH_NODE_FIELDS and t.attr != "id":
+                    fld, fty = _GH_NODE_FIELDS[t.attr]
+                    v, _ = self.ex(st.value, env, binds, fty)
+                    return let(var, "Node", "{ %s with %s := %s }" % (var, fld, v))
+                raise Untranslatable("assignment %s" % u)
+            if (isinstance(t, ast.Subscript) and isinstance(t.value, ast.Attribute) and t.value.attr == "nodes"
+                    and isinstance(t.value.value, ast.Name) and env.get(t.value.value.id) == "GFA" and not isinstance(t.slice, ast.Slice)):
+                # `G.nodes[key] = node`
+                gv = t.value.value.id
+                if not (isinstance(st.value, ast.Name) and env.get(st.value.id) == "Node" and st.value.id in self.node_key):
+                    raise Untranslatable("assignment %s" % u)
+                v = st.value.id
+                k, _ = self.ex(t.slice, env, binds, "Str")
+                if self.node_key[v] != k:
+                    raise Untranslatable("a node is stored under a key that is not its id: %s" % u)
+                env2 = dict(env)
+                del env2[v]                               # the object now lives in the graph; the local name may not be used again
+                return let(gv, "GFA", "{ %s with g := nodesSet %s.g %s %s }" % (gv, gv, k, v), env2)
+            raise Untranslatable("assignment %s" % u)
+        if isinstance(st, ast.Expr) and isinstance(st.value, ast.Call) and isinstance(st.value.func, ast.Attribute):
+            c = st.value
+            f, m = c.func.value, c.func.attr
+            if m == "append" and len(c.args) == 1 and not c.keywords and isinstance(f, ast.Name) and isinstance(env.get(f.id), tuple) \
+                    and env[f.id][0] == "List":
+                v, _ = self.ex(c.args[0], env, binds, env[f.id][1])
+                return let(f.id, env[f.id], "(%s ++ [%s])" % (f.id, v))
+            if isinstance(f, ast.Name) and env.get(f.id) == "GFA" and m == "remove_node" and len(c.args) == 1 and not c.keywords:
+                k, _ = self.ex(c.args[0], env, binds, "Str")
+                return self.wrap(binds, pad, "%smatch callRemoveNode %s %s with\n%s| .error err => .error err\n%s| .ok %s =>\n%s" % (
+                    pad, f.id, k, pad, pad, f.id, cont()))
+            raise Untranslatable("call %s" % u)
+        if isinstance(st, ast.If):
+            t = st.test
+            if (isinstance(t, ast.Compare) and len(t.ops) == 1 and isinstance(t.ops[0], ast.Is) and isinstance(t.left, ast.Name)
+                    and isinstance(t.comparators[0], ast.Constant) and t.comparators[0].value is None
+                    and isinstance(env.get(t.left.id), tuple) and env[t.left.id][0] == "Opt" and not st.orelse and _gh_terminates(st.body)):
+                # `if x is None: … return` — below, x is an object
+                x = t.left.id
+                env2 = dict(env)
+                env2[x] = env[x][1]
+                return "%smatch %s with\n%s| none =>\n%s\n%s| some %s =>\n%s" % (
+                    pad, x, pad, self.blk(st.body, env, ind + 2, ctx), pad, x, self.blk(rest, env2, ind, ctx))
+            c = self.truth(t, env, binds)
+            then = self.blk(st.body if _gh_terminates(st.body) else st.body + rest, env, ind + 2, ctx)
+            els = self.blk(st.orelse if _gh_terminates(st.orelse) else st.orelse + rest, env, ind + 2, ctx)
+            return self.wrap(binds, pad, "%sif %s then\n%s\n%selse\n%s" % (pad, c, then, pad, els))
+        if isinstance(st, ast.For):
+            return self.loop(st, rest, env, ind, ctx)
+        raise Untranslatable("statement %s" % u)
+
+    def loop(self, st, rest, env, ind, ctx):
+        pad = " " * ind
+        u = ast.unparse(st)[:60]
+        if st.orelse:
+            raise Untranslatable("loop %s" % u)
+        # -- a loop over a list of string constants bound once: unrolled
+        if isinstance(st.iter, ast.Name) and st.iter.id in self.const_lists and st.iter.id in env and isinstance(st.target, ast.Name):
+            if any(isinstance(n, ast.Continue) for x in st.body for n in ast.walk(x)):
+                raise Untranslatable("continue in an unrolled loop")
+            if st.target.id in env:
+                raise Untranslatable("loop variable %s hides a local variable" % st.target.id)
+            stmts = []
+            for cst in self.const_lists[st.iter.id]:
+                for x in st.body:
+                    stmts.append(ast.fix_missing_locations(_GhSubst(st.target.id, cst).visit(copy.deepcopy(x))))
+            return self.blk(stmts + rest, env, ind, ctx)
+        self.loops += 1
+        fname = "%sLoop%d" % (self.lname, self.loops)
+        binds = []
+        head = []
+        if (isinstance(st.target, ast.Tuple) and len(st.target.elts) == 2 and all(isinstance(x, ast.Name) for x in st.target.elts)
+                and isinstance(st.iter, ast.Call) and isinstance(st.iter.func, ast.Attribute) and st.iter.func.attr == "items"
+                and not st.iter.args and not st.iter.keywords):
+            it, ity = self.ex(st.iter.func.value, env, binds)
+            if ity != "NodeDict":
+                raise Untranslatable("loop %s" % u)
+            kv, nv = [self.check_name(x.id) for x in st.target.elts]
+            var, vty = "it", "Node"                      # the dict is keyed by the id of the node
+            head = [(kv, "Str", "it.id"), (nv, "Node", "it")]
+            newvars = [kv, nv]
+        elif isinstance(st.target, ast.Name):
+            it, ity = self.ex(st.iter, env, binds)
+            var, vty = self.check_name(st.target.id), self.elem_type(ity, ast.unparse(st.iter))
+            newvars = [var]
+        else:
+            raise Untranslatable("loop %s" % u)
+        if any(v in env for v in newvars) or len(set(newvars)) != len(newvars):
+            raise Untranslatable("loop variable of %s hides a local variable" % u)
+        carried = [v for v in self.assigned(st.body) if v in env]
+        if any(v in newvars for v in self.assigned(st.body)):
+            raise Untranslatable("the loop variable of %s is assigned" % u)
+        free = []
+        for n in ast.walk(ast.Module(body=st.body, type_ignores=[])):
+            if isinstance(n, ast.Name) and n.id in env and n.id not in carried and n.id not in free:
+                free.append(n.id)
+        free.sort(key=lambda v: list(env).index(v))
+        for v in carried:
+            if v in self.node_key:
+                raise Untranslatable("a node object is changed inside %s" % u)
+        sty = " × ".join(_gh_lta(env[v]) for v in carried) if carried else "Unit"
+        rty = _gh_lta(self.sig["ret"])
+
+        def proj(i):
+            n = len(carried)
+            return "st" if n == 1 else "st" + ".2" * i + (".1" if i < n - 1 else "")
+
+        def pack(e):
+            for v in carried:
+                if e.get(v) != env[v]:
+                    raise Untranslatable("%s changes its type in the loop" % v)
+            return "()" if not carried else (carried[0] if len(carried) == 1 else "(" + ", ".join(carried) + ")")
+        benv = {v: env[v] for v in free + carried}
+        benv[var] = vty
+        for n, ty, _ in head:
+            benv[n] = ty
+        bctx = _GhCtx(lambda e, i: " " * i + ".ok (.next %s)" % pack(e), lambda v, i: " " * i + ".ok (.ret %s)" % v, True)
+        body = self.blk(st.body, benv, 2, bctx)
+        lets = ["  let %s : %s := %s" % (v, _gh_lt(env[v]), proj(i)) for i, v in enumerate(carried)]
+        lets += ["  let %s : %s := %s" % (n, _gh_lt(ty), tm) for n, ty, tm in head]
+        self.defs.append("/-- the body of `for %s in %s:` of `%s`; the state is what the body assigns -/\n"
+                         "def %s %s(st : %s) (%s : %s) : Except Exc (Step %s %s) :=\n%s" % (
+                             ast.unparse(st.target), ast.unparse(st.iter)[:80], self.pyname, fname,
+                             "".join("(%s : %s) " % (v, _gh_lt(env[v])) for v in free), sty.strip("()") if " × " not in sty else sty, var, _gh_lt(vty),
+                             "(%s)" % sty if " × " in sty else sty, rty, "\n".join(lets + [body])))
+        after = ["%s  let %s : %s := %s" % (pad, v, _gh_lt(env[v]), proj(i)) for i, v in enumerate(carried)]
+        on_ret = "%s| .ok (.ret r) =>\n%s" % (pad, ctx.ret("r", ind + 2))
+        return self.wrap(binds, pad, "%smatch forR %s %s (%s) with\n%s| .error err => .error err\n%s\n%s| .ok (.next st) =>\n%s" % (
+            pad, it, pack(env), " ".join([fname] + free), pad, on_ret, pad, "\n".join(after + [self.blk(rest, env, ind + 2, ctx)])))
+
+    def function(self):
+        fn, sig = self.fn, self.sig
+        env = {}
+        names = [a.arg for a in fn.args.args]
+        for n, ty in zip(names, [self.cls] + sig["params"]):
+            env[self.check_name(n)] = ty
+        me = names[0]
+        body = [st for st in fn.body if not (isinstance(st, ast.Expr) and isinstance(st.value, ast.Constant))]
+        if sig["mut"]:
+            def fall(e, ind):
+                if e.get(me) != self.cls:
+                    raise Untranslatable("%s: the object is lost" % self.pyname)
+                return " " * ind + ".ok %s" % me
+        else:
+            def fall(e, ind):
+                raise Untranslatable("%s can end without a return" % self.pyname)
+        ctx = _GhCtx(fall, lambda v, ind: " " * ind + ".ok %s" % v, False)
+        text = self.blk(body, env, 2, ctx)
+        head = "def %s %s: Except Exc %s :=\n" % (sig["lean"], "".join("(%s : %s) " % (n, _gh_lt(env[n])) for n in names), _gh_lta(sig["ret"]))
+        return "".join(d + "\n\n" for d in self.defs) + "/-- `%s(%s)` -/\n" % (self.pyname, ", ".join(names[1:])) + head + text + "\n"
+
+
+GRAPH_HELPERS_PRELUDE = """import Gaftools.Model.GraphExtra
+/-! %s -/
+set_option linter.unusedVariables false
+namespace Gaftools.Gen.GraphHelpers
+open Gaftools.Gfa
+
+/-- the Python exceptions these methods can end in (`exit` = `sys.exit(1)`); the type of `Model/GraphExtra.lean` -/
+abbrev Exc := Gaftools.GraphExtra.PyErr
+/-- the object `GFA`: `nodes` + `edge_tags` (= `Gfa.Graph`; the dict `nodes` is the list of its values, keyed by their `id`) and
+    `contig_to_nodes`; the type of `Model/GraphExtra.lean` -/
+abbrev GFA := Gaftools.GraphExtra.GFA
+
+/-! ## the Python primitives the translation refers to -/
+
+/-- what one round of a loop body ends in: the next round with the new values of the assigned variables, or `return v` -/
+inductive Step (σ ρ : Type) where
+  | next (s : σ)
+  | ret (v : ρ)
+
+/-- `for x in xs: body` where the body can raise and can return -/
+def forR {α σ ρ : Type} : List α → σ → (σ → α → Except Exc (Step σ ρ)) → Except Exc (Step σ ρ)
+  | [], s, _ => .ok (.next s)
+  | x :: r, s, body =>
+    match body s x with
+    | .error e => .error e
+    | .ok (.ret v) => .ok (.ret v)
+    | .ok (.next s') => forR r s' body
+
+/-- `[elt for x in xs if cond]` where `cond` / `elt` can raise: `f x` = `none` (filtered out) or `some elt`, left to right -/
+def compE {α β : Type} (f : α → Except Exc (Option β)) : List α → Except Exc (List β)
+  | [] => .ok []
+  | x :: r =>
+    match f x with
+    | .error e => .error e
+    | .ok o =>
+      match compE f r with
+      | .error e => .error e
+      | .ok l => .ok (match o with | some y => y :: l | none => l)
+
+/-- `l[i]` for a Python int `i` (negative: from the end); `none` = `IndexError` -/
+def pyIdx {α : Type} (l : List α) (i : Int) : Option α :=
+  if i ≥ 0 then l[i.toNat]? else if i + (l.length : Int) ≥ 0 then l[(i + (l.length : Int)).toNat]? else none
+
+/-- `range(a, b)` -/
+def pyRangeFrom (a : Int) : Nat → List Int
+  | 0 => []
+  | n + 1 => a :: pyRangeFrom (a + 1) n
+def pyRange (a b : Int) : List Int := pyRangeFrom a (b - a).toNat
+
+/-- `sorted(l)` for a list of strings: the insertion sort of `Model/Gfa.lean` (a sorted permutation: `Proofs/BiccLemmas2.lean`) -/
+def pySorted (l : List String) : List String := sortStrings l
+
+/-- `sorted(l, key=…)`: the keys of all elements are computed first, left to right (any of them can raise), then the list is
+    sorted stably (`GraphExtra.sortByKey`: `sortByKey_perm`, `sortByKey_sorted`, `sortByKey_stable` in `Proofs/GraphExtraLemmas.lean`) -/
+def pySortedBy (key : String → Except Exc Int) (l : List String) : Except Exc (List String) :=
+  match compE (fun x => match key x with | .error e => .error e | .ok k => .ok (some (x, k))) l with
+  | .error e => .error e
+  | .ok ks => .ok ((Gaftools.GraphExtra.sortByKey ks).map (·.1))
+
+/-- `sum(l)`: from 0, left to right -/
+def pySum (l : List Int) : Int := l.foldl (· + ·) 0
+
+/-- `int(s)` on a tag value (`none` = `ValueError`): `GraphExtra.pyInt`, i.e. `[-+]?[0-9]+` — what an `i` tag can hold -/
+def pyInt (s : String) : Option Int := Gaftools.GraphExtra.pyInt s
+
+/-- `==` of two sets, of two dicts (equal item sets), on their duplicate-free list representations -/
+def setEq {α : Type} [BEq α] (a b : List α) : Bool := a.all (fun x => b.contains x) && b.all (fun x => a.contains x)
+def dictEq (a b : List Tag) : Bool := setEq a b
+
+/-- `tags[name]` for the `tags` dict of a node (name ↦ (type, value)); `none` = `KeyError` -/
+def tagsGet (d : List Tag) (k : String) : Option Tag := d.find? (·.name == k)
+
+/-- `self.contig_to_nodes[k]`: a `defaultdict` whose default is the empty list (the entry a read of a missing key creates is
+    not modelled) -/
+def c2nGet (d : List (String × List String)) (k : String) : List String :=
+  match d.find? (·.1 == k) with
+  | some e => e.2
+  | none => []
+
+/-- `G.nodes[key] = value` (the value's `id` is `key`: checked by the translator) -/
+def nodesSet (g : Graph) (key : String) (v : Node) : Graph :=
+  { g with nodes := if g.nodes.any (·.id == key) then g.nodes.map (fun m => if m.id == key then v else m) else g.nodes ++ [v] }
+
+/-- `self.remove_node(k)`: `KeyError` for an unknown id, else `Gfa.removeNode` — tied to the source by Gen/GfaMutate.lean
+    (`TieA20.removeNode_gen`, `TieA20.removeNode_missing`; restated for this call in `TieA25.callRemoveNode_gen`) -/
+def callRemoveNode (x : GFA) (k : String) : Except Exc GFA :=
+  if x.g.has k then .ok { x with g := removeNode x.g k } else .error .keyError
+
+"""
+
+
+def _gh_inits(mod):
+    """`Node(identifier)` and `GFA()` from the two `__init__`, and the container protocol the methods go through"""
+    _gm_expect_body(find_func(mod, "__getitem__", cls="GFA"), ["try:\n    return self.nodes[key]\nexcept KeyError:\n    return None"], "GFA.__getitem__")
+    _gm_expect_body(find_func(mod, "__len__", cls="GFA"), ["return len(self.nodes)"], "GFA.__len__")
+    if [a.arg for a in find_func(mod, "remove_node", cls="GFA").args.args] != ["self", "n_id"]:
+        raise Untranslatable("remove_node signature")
+    ni = find_func(mod, "__init__", cls="Node")
+    if len(ni.args.args) != 2 or ni.args.vararg or ni.args.kwarg or ni.args.kwonlyargs or ni.args.defaults:
+        raise Untranslatable("Node.__init__ signature")
+    me, ident = ni.args.args[0].arg, ni.args.args[1].arg
+    fields, ghost = {}, {}
+    for st in _gm_body(ni):
+        if not (isinstance(st, ast.Assign) and len(st.targets) == 1 and isinstance(st.targets[0], ast.Attribute)
+                and isinstance(st.targets[0].value, ast.Name) and st.targets[0].value.id == me):
+            raise Untranslatable("Node.__init__: %s" % ast.unparse(st)[:60])
+        slot, v = st.targets[0].attr, st.value
+        u = ast.unparse(v)
+        if slot in fields or slot in ghost:
+            raise Untranslatable("Node.__init__ assigns %s twice" % slot)
+        if slot in _GH_NODE_FIELDS:
+            fld, ty = _GH_NODE_FIELDS[slot]
+            if ty == "Str" and isinstance(v, ast.Name) and v.id == ident:
+                fields[fld] = "identifier"
+            elif ty == "Str" and isinstance(v, ast.Constant) and isinstance(v.value, str):
+                fields[fld] = _gh_str(v.value)
+            elif ty == "AdjSet" and u == "set()":
+                fields[fld] = "[]"
+            elif ty == "TagDict" and u in ("dict()", "{}"):
+                fields[fld] = "[]"
+            else:
+                raise Untranslatable("Node.__init__: %s" % ast.unparse(st)[:60])
+        elif slot == "seq_len" and isinstance(v, ast.Constant) and isinstance(v.value, int) and not isinstance(v.value, bool):
+            ghost[slot] = "(%d : Int)" % v.value
+        elif slot == "visited" and isinstance(v, ast.Constant) and isinstance(v.value, bool):
+            ghost[slot] = "true" if v.value else "false"
+        else:
+            raise Untranslatable("Node.__init__: %s" % ast.unparse(st)[:60])
+    if set(fields) != {"id", "seq", "startAdj", "endAdj", "tags"} or set(ghost) != {"seq_len", "visited"} or fields["id"] != "identifier":
+        raise Untranslatable("Node.__init__ does not set every slot")
+    new_node = "{ " + ", ".join("%s := %s" % (f, fields[f]) for f in ("id", "seq", "startAdj", "endAdj", "tags")) + " }"
+    gi = find_func(mod, "__init__", cls="GFA")
+    want = {"nodes": ("dict()", "{}"), "edge_tags": ("dict()", "{}"), "contig_to_nodes": ("defaultdict(lambda: [])", "defaultdict(list)")}
+    init = {}
+    pos = gi.args.args[1:]
+    if len(gi.args.defaults) != len(pos) or gi.args.vararg or gi.args.kwarg or gi.args.kwonlyargs:
+        raise Untranslatable("GFA.__init__ signature")          # `GFA()` must be a legal call
+    falsy = {a.arg for a, d in zip(pos, gi.args.defaults) if isinstance(d, ast.Constant) and not d.value}
+    for st in _gm_body(gi):
+        if isinstance(st, ast.Assign) and len(st.targets) == 1 and isinstance(st.targets[0], ast.Attribute) and _gm_is_self(st.targets[0].value):
+            slot = st.targets[0].attr
+            if slot in want:
+                if ast.unparse(st.value) not in want[slot] or slot in init:
+                    raise Untranslatable("GFA.__init__: %s" % ast.unparse(st)[:60])
+                init[slot] = "[]"
+            elif slot not in ("low_memory", "contigs"):
+                raise Untranslatable("GFA.__init__: %s" % ast.unparse(st)[:60])
+        elif isinstance(st, ast.If) and isinstance(st.test, ast.Name) and st.test.id in falsy and not st.orelse:
+            pass                              # `GFA()` without a file: the branch that reads one is not taken
+        else:
+            raise Untranslatable("GFA.__init__: %s" % ast.unparse(st)[:60])
+    if set(init) != set(want):
+        raise Untranslatable("GFA.__init__")
+    return new_node, ghost, init
+
+
+def gen_graph_helpers():
+    try:
+        return _gen_graph_helpers()
+    except Untranslatable:
+        raise
+    except Exception as e:  # a shape the translator did not foresee is never an alarm
+        raise Untranslatable("translator: %s: %s" % (type(e).__name__, e))
+
+
+def _gen_graph_helpers():
+    _, src = src_of("gaftools/gfa.py")
+    mod = ast.parse(src)
+    new_node, ghost, init = _gh_inits(mod)
+    sigs, fns = {}, []
+    for cls, m, lean, params, ret, mut in _GH_SIGS:
+        fn = find_func(mod, m, cls=cls)
+        a = fn.args
+        if a.vararg or a.kwarg or a.kwonlyargs or a.posonlyargs or len(a.args) != 1 + len(params) or fn.decorator_list:
+            raise Untranslatable("%s.%s signature" % (cls, m))
+        names = [x.arg for x in a.args[1:]]
+        defaults = dict(zip(names[len(names) - len(a.defaults):], a.defaults)) if a.defaults else {}
+        sigs[(cls, m)] = {"lean": lean, "params": params, "ret": ret, "mut": mut, "names": names, "defaults": defaults}
+        fns.append((cls, m, fn))
+    out = []
+    for cls, m, fn in fns:
+        out.append(_GH(sigs, cls, sigs[(cls, m)], fn).function())
+    return (GRAPH_HELPERS_PRELUDE % (
+        "generated by harness/translate.py from gaftools/gfa.py : Node.neighbors, Node.in_direction, Node.children, Node.is_equal_to,\n"
+        "    GFA.remove_lonely_nodes, GFA.graph_from_comp, GFA.list_is_path, GFA.get_path, GFA.get_contig_length, GFA.return_gfa_path,\n"
+        "    GFA.is_equal_to — every statement in source order; `.error` = the Python raises — do not edit")
+        + "/-- `Node(identifier)`: the slots the model stores -/\n"
+        + "def newNode (identifier : String) : Node := %s\n" % new_node
+        + "/-- … and the two it derives: `seq_len`, `visited` -/\n"
+        + "def newNodeSeqLen : Int := %s\ndef newNodeVisited : Bool := %s\n\n" % (ghost["seq_len"], ghost["visited"])
+        + "/-- `GFA()` (no file) -/\n"
+        + "def emptyGFA : GFA := { g := { nodes := %s, edgeTags := %s }, contigToNodes := %s }\n\n" % (
+            init["nodes"], init["edge_tags"], init["contig_to_nodes"])
+        + "\n".join(out)
+        + "end Gaftools.Gen.GraphHelpers\n")
+
+
+GENERATORS["GraphHelpers"] = gen_graph_helpers
+
+
 def regenerate(only=None):
     """returns {name: {"tie": "A"|"B-only", "detail": str, "changed": bool}}"""
     os.makedirs(GEN, exist_ok=True)
@@ -12571,6 +14389,612 @@ FALLBACK["PhaseTsv"] = PHASE_TSV_HEADER % (
   | some new_cigar =>
   some new_cigar""",
     "def isFileGzipped (bytes : List UInt8) : Bool := (bytes.take 2 == [0x1f, 0x8b])")
+
+FALLBACK["SortPass"] = r'''import Gaftools.Model.Sort
+import Gaftools.Model.ConvText
+import Gaftools.Gen.CmpGaf
+/-! FALLBACK (source construct outside the translator's subset): a frozen copy of the translation of process_alignment and of the
+    first pass of sort up to list.sort (gaftools/cli/sort.py) as it stood when the tie was made — the check relies on tie B alone -/
+set_option linter.unusedVariables false
+namespace Gaftools.Gen.SortPass
+open Gaftools.Gaf Gaftools.Sort Gaftools.ConvText
+
+/-! ## the Python primitives the translation refers to -/
+
+/-- how an evaluation ends when it does not produce a value -/
+inductive PyExc where
+  | keyError | indexError | valueError | assertionError
+  | outOfFuel      -- not a Python exception: the fuel handed to a `while True:` loop ran out
+deriving DecidableEq, Repr
+
+/-- `d[k]` (absent: KeyError), `l[i]` (out of range: IndexError), `int(s)` (not a number: ValueError) -/
+def orKey {α : Type} : Option α → Except PyExc α
+  | some a => .ok a
+  | none => .error .keyError
+def orIndex {α : Type} : Option α → Except PyExc α
+  | some a => .ok a
+  | none => .error .indexError
+def orValue {α : Type} : Option α → Except PyExc α
+  | some a => .ok a
+  | none => .error .valueError
+
+/-- `l[i]` for an integer that may be negative (counted from the end) -/
+def pyIdx {α : Type} (l : List α) (i : Int) : Option α :=
+  if i < 0 then (if i.natAbs ≤ l.length then l[l.length - i.natAbs]? else none) else l[i.toNat]?
+
+/-- `re.split(p, s)` for a pattern that is an alternation of single characters, every one of them in a capturing group: `sep c` =
+    the character is one of them; the separator itself becomes an element of the result (the `None`s of the groups that did not
+    take part are not represented: the translator insists on `filter(None, …)` around a pattern with groups). -/
+def reSplitAux (sep keep : Char → Bool) : Str → Str → List Str
+  | [], cur => [cur.reverse]
+  | c :: cs, cur =>
+    if sep c then cur.reverse :: ((if keep c then [[c]] else []) ++ reSplitAux sep keep cs [])
+    else reSplitAux sep keep cs (c :: cur)
+def reSplit (sep keep : Char → Bool) (s : Str) : List Str := reSplitAux sep keep s []
+
+/-- `filter(None, l)` on strings: the empty ones go -/
+def filterNone (l : List Str) : List Str := l.filter (fun t => !t.isEmpty)
+
+/-- the GAF being read: `tell()` = `pos` (a record is identified by its ordinal); `readline()` gives the head of `rest` — the empty
+    string when nothing is left — and advances `pos` -/
+structure GafFile where
+  pos : Nat
+  rest : List Str
+
+/-- `while True:` with a body that says whether to go on (`false` = `break`) -/
+def whileTrue {σ : Type} (body : σ → Except PyExc (Bool × σ)) : Nat → σ → Except PyExc σ
+  | 0, _ => .error .outOfFuel
+  | fuel + 1, s =>
+    match body s with
+    | .error e => .error e
+    | .ok (false, s') => .ok s'
+    | .ok (true, s') => whileTrue body fuel s'
+
+/-- `l.sort(key=functools.cmp_to_key(cmp))`: a stable sort that only ever asks whether `K(y) < K(x)`, which `cmp_to_key` answers by
+    `cmp(y, x) < 0`: `x` stays in front of `y` unless that holds.  (A comparator that returns `None` makes `<` raise `TypeError`;
+    that outcome is not represented: `none` counts as "not less".) -/
+def pySortCmp {α : Type} (cmp : α → α → Option Int) (l : List α) : List α :=
+  l.mergeSort (fun x y => match cmp y x with
+    | some c => !(decide (c < 0))
+    | none => true)
+
+/-! ## process_alignment -/
+
+/-- body of `for n in path`; the state is `orient`, `orient_list`, `sn` -/
+def processAlignment_for1 (nodes : String → Option NodeTags) (s : (Option Str × List (Option Str) × Option String)) (n : Str) : Except PyExc (Option Str × List (Option Str) × Option String) :=
+  let orient : Option Str := s.1
+  let orient_list : List (Option Str) := s.2.1
+  let sn : Option String := s.2.2
+  if ([['>'], ['<']].contains n) then
+    let orient : Str := n
+    .ok ((some orient), orient_list, sn)
+  else
+    (orKey (nodes (String.ofList n))).bind fun v1 =>
+    let sn_tag : String := v1.sn
+    (orKey (nodes (String.ofList n))).bind fun v2 =>
+    let bo_tag : Int := v2.bo
+    (orKey (nodes (String.ofList n))).bind fun v3 =>
+    let no_tag : Int := v3.no
+    (orKey (nodes (String.ofList n))).bind fun v4 =>
+    let sr_tag : Int := v4.sr
+    if ((sn.isNone = true) ∧ (sr_tag = (0 : Int))) then
+      let sn : String := sn_tag
+      if ((bo_tag = (-1 : Int)) ∨ (no_tag = (-1 : Int))) then
+        .ok (orient, orient_list, (some sn))
+      else
+        if (no_tag ≠ (0 : Int)) then
+          .ok (orient, orient_list, (some sn))
+        else
+          let orient_list : List (Option Str) := orient_list ++ [orient]
+          .ok (orient, orient_list, (some sn))
+    else
+      if (sr_tag = (0 : Int)) then
+        if (sn == (some sn_tag)) then
+          if ((bo_tag = (-1 : Int)) ∨ (no_tag = (-1 : Int))) then
+            .ok (orient, orient_list, sn)
+          else
+            if (no_tag ≠ (0 : Int)) then
+              .ok (orient, orient_list, sn)
+            else
+              let orient_list : List (Option Str) := orient_list ++ [orient]
+              .ok (orient, orient_list, sn)
+        else
+          .error .assertionError
+      else
+        if ((bo_tag = (-1 : Int)) ∨ (no_tag = (-1 : Int))) then
+          .ok (orient, orient_list, sn)
+        else
+          if (no_tag ≠ (0 : Int)) then
+            .ok (orient, orient_list, sn)
+          else
+            let orient_list : List (Option Str) := orient_list ++ [orient]
+            .ok (orient, orient_list, sn)
+
+/-- `process_alignment(line, nodes, offset)`: `(bo, no, start, inv, sn)` or the exception -/
+def processAlignment (line : List Str) (nodes : String → Option NodeTags) (offset : Nat) : Except PyExc (Int × Int × Int × Int × String) :=
+  (orIndex (line[5]?)).bind fun v1 =>
+  let path : List Str := (filterNone (reSplit (fun c => c == '>' || c == '<') (fun c => c == '>' || c == '<') v1))
+  let orient : Option Str := none
+  let bo : Option Int := none
+  let no : Option Int := none
+  let start : Option Int := none
+  let orient_list : List (Option Str) := []
+  let inv : Int := (0 : Int)
+  let sn : Option String := none
+  (path.foldlM (processAlignment_for1 nodes) (orient, orient_list, sn)).bind fun s =>
+  let orient : Option Str := s.1
+  let orient_list : List (Option Str) := s.2.1
+  let sn : Option String := s.2.2
+  if ((((orient_list.count (some ['>']) : Nat) : Int) ≠ (0 : Int)) ∧ (((orient_list.count (some ['<']) : Nat) : Int) ≠ (0 : Int))) then
+    let inv : Int := (1 : Int)
+    if (((orient_list.count (some ['>']) : Nat) : Int) < ((orient_list.count (some ['<']) : Nat) : Int)) then
+      (orIndex (line[6]?)).bind fun v2 =>
+      (orValue (toInt v2)).bind fun v3 =>
+      let l : Int := v3
+      (orIndex (line[8]?)).bind fun v4 =>
+      (orValue (toInt v4)).bind fun v5 =>
+      let e : Int := v5
+      let start : Int := (l - e)
+      (orIndex (pyIdx path (-1 : Int))).bind fun v6 =>
+      let n : Str := v6
+      (orKey (nodes (String.ofList n))).bind fun v7 =>
+      let bo : Int := v7.bo
+      (orKey (nodes (String.ofList n))).bind fun v8 =>
+      let no : Int := v8.no
+      match sn with
+      | none =>
+        let sn : String := "unknown"
+        .ok (bo, no, start, inv, sn)
+      | some sn =>
+        .ok (bo, no, start, inv, sn)
+    else
+      (orIndex (line[7]?)).bind fun v9 =>
+      (orValue (toInt v9)).bind fun v10 =>
+      let start : Int := v10
+      (orIndex (path[1]?)).bind fun v11 =>
+      let n : Str := v11
+      (orKey (nodes (String.ofList n))).bind fun v12 =>
+      let bo : Int := v12.bo
+      (orKey (nodes (String.ofList n))).bind fun v13 =>
+      let no : Int := v13.no
+      match sn with
+      | none =>
+        let sn : String := "unknown"
+        .ok (bo, no, start, inv, sn)
+      | some sn =>
+        .ok (bo, no, start, inv, sn)
+  else
+    if (((orient_list.count (some ['>']) : Nat) : Int) < ((orient_list.count (some ['<']) : Nat) : Int)) then
+      (orIndex (line[6]?)).bind fun v14 =>
+      (orValue (toInt v14)).bind fun v15 =>
+      let l : Int := v15
+      (orIndex (line[8]?)).bind fun v16 =>
+      (orValue (toInt v16)).bind fun v17 =>
+      let e : Int := v17
+      let start : Int := (l - e)
+      (orIndex (pyIdx path (-1 : Int))).bind fun v18 =>
+      let n : Str := v18
+      (orKey (nodes (String.ofList n))).bind fun v19 =>
+      let bo : Int := v19.bo
+      (orKey (nodes (String.ofList n))).bind fun v20 =>
+      let no : Int := v20.no
+      match sn with
+      | none =>
+        let sn : String := "unknown"
+        .ok (bo, no, start, inv, sn)
+      | some sn =>
+        .ok (bo, no, start, inv, sn)
+    else
+      (orIndex (line[7]?)).bind fun v21 =>
+      (orValue (toInt v21)).bind fun v22 =>
+      let start : Int := v22
+      (orIndex (path[1]?)).bind fun v23 =>
+      let n : Str := v23
+      (orKey (nodes (String.ofList n))).bind fun v24 =>
+      let bo : Int := v24.bo
+      (orKey (nodes (String.ofList n))).bind fun v25 =>
+      let no : Int := v25.no
+      match sn with
+      | none =>
+        let sn : String := "unknown"
+        .ok (bo, no, start, inv, sn)
+      | some sn =>
+        .ok (bo, no, start, inv, sn)
+
+/-! ## sort: the first pass and the call of list.sort -/
+
+/-- body of `while True:` (`false` = `break`); the state is `reader`, `gaf_alignments`, `count_inverse` -/
+def firstPass_while1 (nodes : String → Option NodeTags) (s : (GafFile × List Aln × Int)) : Except PyExc (Bool × (GafFile × List Aln × Int)) :=
+  let reader : GafFile := s.1
+  let gaf_alignments : List Aln := s.2.1
+  let count_inverse : Int := s.2.2
+  let offset : Nat := reader.pos
+  let line : Str := reader.rest.head?.getD []
+  let reader : GafFile := ⟨reader.pos + 1, reader.rest.tail⟩
+  if line.isEmpty then
+    .ok (false, (reader, gaf_alignments, count_inverse))
+  else
+    let line : List Str := (splitOnChar '\t' (rstrip line))
+    (processAlignment line nodes offset).bind fun v1 =>
+    let bo : Int := v1.1
+    let no : Int := v1.2.1
+    let start : Int := v1.2.2.1
+    let inv : Int := v1.2.2.2.1
+    let sn : String := v1.2.2.2.2
+    if (inv = (1 : Int)) then
+      let count_inverse : Int := (count_inverse + (1 : Int))
+      let gaf_alignments : List Aln := gaf_alignments ++ [({ offset := (offset : Int), bo := bo, no := no, start := start, inv := inv, sn := sn } : Aln)]
+      .ok (true, (reader, gaf_alignments, count_inverse))
+    else
+      let gaf_alignments : List Aln := gaf_alignments ++ [({ offset := (offset : Int), bo := bo, no := no, start := start, inv := inv, sn := sn } : Aln)]
+      .ok (true, (reader, gaf_alignments, count_inverse))
+
+/-- `sort`, from `Alignment = namedtuple('Alignment', ['offset', 'BO', 'NO', 'start', 'inv', 'sn'])` to `gaf_alignments.sort(key=functools.cmp_to_key(compare_gaf))`: (`gaf_alignments`, `count_inverse`) -/
+def firstPass (nodes : String → Option NodeTags) (reader : GafFile) (fuel : Nat) : Except PyExc (List Aln × Int) :=
+  let gaf_alignments : List Aln := []
+  let count_inverse : Int := (0 : Int)
+  (whileTrue (firstPass_while1 nodes) fuel (reader, gaf_alignments, count_inverse)).bind fun s =>
+  let reader : GafFile := s.1
+  let gaf_alignments : List Aln := s.2.1
+  let count_inverse : Int := s.2.2
+  let gaf_alignments : List Aln := pySortCmp Gaftools.Gen.cmpGaf gaf_alignments
+  .ok (gaf_alignments, count_inverse)
+end Gaftools.Gen.SortPass
+'''
+
+FALLBACK["GraphHelpers"] = GRAPH_HELPERS_PRELUDE % (
+    "FALLBACK (source construct outside the translator's subset): a frozen copy of the translation of Node.neighbors, Node.in_direction,\n"
+    "    Node.children, Node.is_equal_to, GFA.remove_lonely_nodes, GFA.graph_from_comp, GFA.list_is_path, GFA.get_path, GFA.get_contig_length,\n"
+    "    GFA.return_gfa_path, GFA.is_equal_to (gaftools/gfa.py) as the source stood when `Props/TieA25.lean` was written") + r'''/-- `Node(identifier)`: the slots the model stores -/
+def newNode (identifier : String) : Node := { id := identifier, seq := "", startAdj := [], endAdj := [], tags := [] }
+/-- … and the two it derives: `seq_len`, `visited` -/
+def newNodeSeqLen : Int := (0 : Int)
+def newNodeVisited : Bool := false
+
+/-- `GFA()` (no file) -/
+def emptyGFA : GFA := { g := { nodes := [], edgeTags := [] }, contigToNodes := [] }
+
+/-- `Node.neighbors()` -/
+def nodeNeighbors (self : Node) : Except Exc (List String) :=
+  let neighbors : List String := ((self.startAdj.map (fun (x : Adj) => x.1)) ++ (self.endAdj.map (fun (x : Adj) => x.1)))
+  .ok (pySorted neighbors)
+
+/-- `Node.in_direction(other, direction)` -/
+def nodeInDirection (self : Node) (other : String) (direction : Int) : Except Exc Bool :=
+  if (direction == (0 : Int)) then
+    if ((self.startAdj.map (fun (x : Adj) => x.1)).contains other) then
+      .ok true
+    else
+      .ok false
+  else
+    if (direction == (1 : Int)) then
+      if ((self.endAdj.map (fun (x : Adj) => x.1)).contains other) then
+        .ok true
+      else
+        .ok false
+    else
+      .error .valueError
+
+/-- `Node.children(direction)` -/
+def nodeChildren (self : Node) (direction : Int) : Except Exc (List String) :=
+  if (direction == (0 : Int)) then
+    .ok (self.startAdj.map (fun (x : Adj) => x.1))
+  else
+    if (direction == (1 : Int)) then
+      .ok (self.endAdj.map (fun (x : Adj) => x.1))
+    else
+      .error .valueError
+
+/-- `Node.is_equal_to(other, only_topo)` -/
+def nodeIsEqualTo (self : Node) (other : Node) (only_topo : Bool) : Except Exc Bool :=
+  let all_ats : List String := ["id", "seq", "seq_len", "start", "end", "tags"]
+  let only_topo_atts : List String := ["id", "start", "end"]
+  if only_topo then
+    if (!(self.id == other.id)) then
+      .ok false
+    else
+      if (!(setEq self.startAdj other.startAdj)) then
+        .ok false
+      else
+        if (!(setEq self.endAdj other.endAdj)) then
+          .ok false
+        else
+          .ok true
+  else
+    if (!(self.id == other.id)) then
+      .ok false
+    else
+      if (!(self.seq == other.seq)) then
+        .ok false
+      else
+        if (!((self.seq.length : Int) == (other.seq.length : Int))) then
+          .ok false
+        else
+          if (!(setEq self.startAdj other.startAdj)) then
+            .ok false
+          else
+            if (!(setEq self.endAdj other.endAdj)) then
+              .ok false
+            else
+              if (!(dictEq self.tags other.tags)) then
+                .ok false
+              else
+                .ok true
+
+/-- the body of `for i in nodes_to_remove:` of `GFA.remove_lonely_nodes`; the state is what the body assigns -/
+def gfaRemoveLonelyNodesLoop1 (st : GFA) (i : String) : Except Exc (Step GFA GFA) :=
+  let self : GFA := st
+  match callRemoveNode self i with
+  | .error err => .error err
+  | .ok self =>
+  .ok (.next self)
+
+/-- `GFA.remove_lonely_nodes()` -/
+def gfaRemoveLonelyNodes (self : GFA) : Except Exc GFA :=
+  match compE (fun (n : Node) =>
+      match nodeNeighbors n with
+      | .error err => .error err
+      | .ok v1 =>
+      if ((v1.length : Int) == (0 : Int)) then
+        .ok (some n.id)
+      else
+        .ok none) self.g.nodes with
+  | .error err => .error err
+  | .ok v2 =>
+  let nodes_to_remove : List String := v2
+  match forR nodes_to_remove self (gfaRemoveLonelyNodesLoop1) with
+  | .error err => .error err
+  | .ok (.ret r) =>
+    .ok r
+  | .ok (.next st) =>
+    let self : GFA := st
+    .ok self
+
+/-- the body of `for n in component_nodes:` of `GFA.graph_from_comp`; the state is what the body assigns -/
+def gfaGraphFromCompLoop1 (self : GFA) (st : GFA) (n : String) : Except Exc (Step GFA GFA) :=
+  let new_graph : GFA := st
+  let new_node : Node := newNode n
+  match (self.g.find n) with
+  | none => .error .attributeError
+  | some v1 =>
+  let new_node : Node := { new_node with seq := v1.seq }
+  match (self.g.find n) with
+  | none => .error .attributeError
+  | some v2 =>
+  let new_node_seq_len : Int := (v2.seq.length : Int)
+  match (self.g.find n) with
+  | none => .error .attributeError
+  | some v3 =>
+  let new_node : Node := { new_node with startAdj := v3.startAdj }
+  match (self.g.find n) with
+  | none => .error .attributeError
+  | some v4 =>
+  let new_node : Node := { new_node with endAdj := v4.endAdj }
+  match (self.g.find n) with
+  | none => .error .attributeError
+  | some v5 =>
+  let new_node : Node := { new_node with tags := v5.tags }
+  let new_graph : GFA := { new_graph with g := nodesSet new_graph.g n new_node }
+  .ok (.next new_graph)
+
+/-- `GFA.graph_from_comp(component_nodes)` -/
+def gfaGraphFromComp (self : GFA) (component_nodes : List String) : Except Exc GFA :=
+  let new_graph : GFA := emptyGFA
+  match forR component_nodes new_graph (gfaGraphFromCompLoop1 self) with
+  | .error err => .error err
+  | .ok (.ret r) =>
+    .ok r
+  | .ok (.next st) =>
+    let new_graph : GFA := st
+    .ok new_graph
+
+/-- the body of `for i in range(1, len(node_list)):` of `GFA.list_is_path`; the state is what the body assigns -/
+def gfaListIsPathLoop1 (self : GFA) (node_list : List String) (st : Unit) (i : Int) : Except Exc (Step Unit Bool) :=
+  match pyIdx node_list i with
+  | none => .error .indexError
+  | some v1 =>
+  let current_node : String := v1
+  match pyIdx node_list (i - (1 : Int)) with
+  | none => .error .indexError
+  | some v2 =>
+  let previous_node : String := v2
+  match self.g.find previous_node with
+  | none => .error .keyError
+  | some v3 =>
+  match nodeNeighbors v3 with
+  | .error err => .error err
+  | .ok v4 =>
+  if (v4.contains current_node) then
+    .ok (.next ())
+  else
+    .ok (.ret false)
+
+/-- `GFA.list_is_path(node_list)` -/
+def gfaListIsPath (self : GFA) (node_list : List String) : Except Exc Bool :=
+  match forR (pyRange (1 : Int) (node_list.length : Int)) () (gfaListIsPathLoop1 self node_list) with
+  | .error err => .error err
+  | .ok (.ret r) =>
+    .ok r
+  | .ok (.next st) =>
+    .ok true
+
+/-- `GFA.get_path(chrom, throw_warning)` -/
+def gfaGetPath (self : GFA) (chrom : String) (throw_warning : Bool) : Except Exc (List String) :=
+  let nodes_of_chrom : List String := (c2nGet self.contigToNodes chrom)
+  if (nodes_of_chrom == []) then
+    .ok []
+  else
+    match pySortedBy (fun (x : String) =>
+      match self.g.find x with
+      | none => .error .keyError
+      | some v1 =>
+      match tagsGet v1.tags "SO" with
+      | none => .error .keyError
+      | some v2 =>
+      match pyInt v2.val with
+      | none => .error .valueError
+      | some v3 =>
+      .ok v3) nodes_of_chrom with
+    | .error err => .error err
+    | .ok v4 =>
+    let sorted_nodes : List String := v4
+    match gfaListIsPath self sorted_nodes with
+    | .error err => .error err
+    | .ok v5 =>
+    if v5 then
+      .ok sorted_nodes
+    else
+      if throw_warning then
+        .ok []
+      else
+        .ok sorted_nodes
+
+/-- `GFA.get_contig_length(chrom, throw_warning)` -/
+def gfaGetContigLength (self : GFA) (chrom : String) (throw_warning : Bool) : Except Exc Int :=
+  match gfaGetPath self chrom throw_warning with
+  | .error err => .error err
+  | .ok v1 =>
+  let sorted_nodes : List String := v1
+  if sorted_nodes.isEmpty then
+    .error .exit
+  else
+    match compE (fun (x : String) =>
+      match self.g.find x with
+      | none => .error .keyError
+      | some v2 =>
+      match tagsGet v2.tags "LN" with
+      | none => .error .keyError
+      | some v3 =>
+      match pyInt v3.val with
+      | none => .error .valueError
+      | some v4 =>
+      .ok (some v4)) sorted_nodes with
+    | .error err => .error err
+    | .ok v5 =>
+    .ok (pySum v5)
+
+/-- the body of `for i in range(len(list_of_nodes) - 1):` of `GFA.return_gfa_path`; the state is what the body assigns -/
+def gfaReturnGfaPathLoop1 (self : GFA) (list_of_nodes : List String) (st : List String) (i : Int) : Except Exc (Step (List String) String) :=
+  let path : List String := st
+  match pyIdx list_of_nodes i with
+  | none => .error .indexError
+  | some v1 =>
+  match self.g.find v1 with
+  | none => .error .keyError
+  | some v2 =>
+  match pyIdx list_of_nodes (i + (1 : Int)) with
+  | none => .error .indexError
+  | some v3 =>
+  match nodeInDirection v2 v3 (1 : Int) with
+  | .error err => .error err
+  | .ok v4 =>
+  if v4 then
+    match pyIdx list_of_nodes i with
+    | none => .error .indexError
+    | some v5 =>
+    let path : List String := (path ++ [(v5 ++ "+")])
+    .ok (.next path)
+  else
+    match pyIdx list_of_nodes i with
+    | none => .error .indexError
+    | some v6 =>
+    match self.g.find v6 with
+    | none => .error .keyError
+    | some v7 =>
+    match pyIdx list_of_nodes (i + (1 : Int)) with
+    | none => .error .indexError
+    | some v8 =>
+    match nodeInDirection v7 v8 (0 : Int) with
+    | .error err => .error err
+    | .ok v9 =>
+    if v9 then
+      match pyIdx list_of_nodes i with
+      | none => .error .indexError
+      | some v10 =>
+      let path : List String := (path ++ [(v10 ++ "-")])
+      .ok (.next path)
+    else
+      .error .valueError
+
+/-- `GFA.return_gfa_path(list_of_nodes)` -/
+def gfaReturnGfaPath (self : GFA) (list_of_nodes : List String) : Except Exc String :=
+  let path : List String := []
+  match forR (pyRange (0 : Int) ((list_of_nodes.length : Int) - (1 : Int))) path (gfaReturnGfaPathLoop1 self list_of_nodes) with
+  | .error err => .error err
+  | .ok (.ret r) =>
+    .ok r
+  | .ok (.next st) =>
+    let path : List String := st
+    match pyIdx list_of_nodes (-1 : Int) with
+    | none => .error .indexError
+    | some v11 =>
+    match self.g.find v11 with
+    | none => .error .keyError
+    | some v12 =>
+    match pyIdx list_of_nodes (-2 : Int) with
+    | none => .error .indexError
+    | some v13 =>
+    match nodeInDirection v12 v13 (0 : Int) with
+    | .error err => .error err
+    | .ok v14 =>
+    if v14 then
+      match pyIdx list_of_nodes (-1 : Int) with
+      | none => .error .indexError
+      | some v15 =>
+      let path : List String := (path ++ [(v15 ++ "+")])
+      .ok (",".intercalate path)
+    else
+      match pyIdx list_of_nodes (-1 : Int) with
+      | none => .error .indexError
+      | some v16 =>
+      match self.g.find v16 with
+      | none => .error .keyError
+      | some v17 =>
+      match pyIdx list_of_nodes (-2 : Int) with
+      | none => .error .indexError
+      | some v18 =>
+      match nodeInDirection v17 v18 (1 : Int) with
+      | .error err => .error err
+      | .ok v19 =>
+      if v19 then
+        match pyIdx list_of_nodes (-1 : Int) with
+        | none => .error .indexError
+        | some v20 =>
+        let path : List String := (path ++ [(v20 ++ "-")])
+        .ok (",".intercalate path)
+      else
+        .error .valueError
+
+/-- the body of `for (n_id, node1) in self.nodes.items():` of `GFA.is_equal_to`; the state is what the body assigns -/
+def gfaIsEqualToLoop1 (other : GFA) (only_topo : Bool) (st : Unit) (it : Node) : Except Exc (Step Unit Bool) :=
+  let n_id : String := it.id
+  let node1 : Node := it
+  let node2 : Option Node := (other.g.find n_id)
+  match node2 with
+  | none =>
+    .ok (.ret false)
+  | some node2 =>
+  match nodeIsEqualTo node1 node2 only_topo with
+  | .error err => .error err
+  | .ok v1 =>
+  if (!v1) then
+    .ok (.ret false)
+  else
+    .ok (.next ())
+
+/-- `GFA.is_equal_to(other, only_topo)` -/
+def gfaIsEqualTo (self : GFA) (other : GFA) (only_topo : Bool) : Except Exc Bool :=
+  if (!((self.g.nodes.length : Int) == (other.g.nodes.length : Int))) then
+    .ok false
+  else
+    match forR self.g.nodes () (gfaIsEqualToLoop1 other only_topo) with
+    | .error err => .error err
+    | .ok (.ret r) =>
+      .ok r
+    | .ok (.next st) =>
+      .ok true
+end Gaftools.Gen.GraphHelpers
+'''
 
 if __name__ == "__main__":
     import json
